@@ -1,12 +1,20 @@
 (* Blocking.v -- T2 for C07 (Type I blocking) on the engine model.  At every event boundary, for every configuration,
-   every state satisfying the invariant, every oracle of draws and any number of events:
+   every state satisfying the invariants, every oracle of draws and any number of events:
      (i)   every node's blocked-queue counter is the length of its blocked queue;
-     (ii)  nobody is left blocked while the destination has space: a node with a non-empty blocked queue is full;
-     (iv)  FIFO: in one event (hence in any number of events) the blocked queue of every node changes only by losing a
-           prefix (the customers unblocked, oldest first: release_blocked_individual takes the HEAD) and gaining a
-           suffix (block_individual appends at the END).
-   Inside `release` (ii) is broken for the node that just lost a customer; the tail of `release` (the model of
-   release_blocked_individual) restores it by re-filling the node from the head of its blocked queue, recursively. *)
+     (ii)  nobody is left blocked while the destination has space: a node with a non-empty blocked queue has a finite
+           capacity and is full;
+     (iii) who is in the blocked queues: an entry (from, y) of the blocked queue of d is a customer y of node `from`,
+           flagged blocked, with destination d (holding a server when `from` has finitely many); conversely every customer
+           flagged blocked is in exactly one blocked queue, once;
+     (iv)  FIFO: in one event either blocked queues only lose heads (the unblocking cascade: release_blocked_individual
+           takes the HEAD), or exactly one customer joins the END of the blocked queue of a node that is full
+           (block_individual) and nothing else moves; hence over any number of events every blocked queue changes by
+           losing a prefix and gaining a suffix.
+   Part 1 (invariant Blk: (i), (ii), (iv)) needs only the node identities; inside `release` (ii) is broken for the node
+   that just lost a customer and the tail of `release` restores it by re-filling the node from the head of its blocked
+   queue, recursively.  Part 2 (invariant Who: (iii)) needs conservation (Conserve.WFx: nobody is in two places) and facts
+   about servers and the customer table, because what keeps a blocked customer from being picked again by finish_service
+   is that the server it holds has no end-of-service date. *)
 From Coq Require Import ZArith List Bool Lia Permutation.
 From RecordUpdate Require Import RecordUpdate.
 From CiwV Require Import Sx Prelude Routing.
@@ -759,6 +767,1413 @@ Definition run_blkb (inp : sx) : sx :=
   | _ => A (-1)
   end.
 
+
+(* ====================================================================================================================
+   (iii) WHO is in the blocked queues
+   ==================================================================================================================== *)
+
+(* ---------- the customer table ---------- *)
+Lemma find_put_same x l : find_ind (i_id x) (put_ind_l x l) = Some x.
+Proof.
+  induction l as [|y r IH]; cbn; [rewrite Z.eqb_refl; reflexivity|].
+  destruct (i_id y =? i_id x) eqn:E; cbn; [rewrite Z.eqb_refl; reflexivity|rewrite E; exact IH].
+Qed.
+Lemma find_put_other x l i : i <> i_id x -> find_ind i (put_ind_l x l) = find_ind i l.
+Proof.
+  intros Hne. induction l as [|y r IH]; cbn.
+  - destruct (Z.eqb_spec (i_id x) i); [congruence|reflexivity].
+  - destruct (Z.eqb_spec (i_id y) (i_id x)) as [E|E]; cbn.
+    + destruct (Z.eqb_spec (i_id x) i); [congruence|]. destruct (Z.eqb_spec (i_id y) i); [congruence|reflexivity].
+    + destruct (Z.eqb_spec (i_id y) i); [reflexivity|exact IH].
+Qed.
+Lemma find_del_other i j l : i <> j -> find_ind i (del_ind_l j l) = find_ind i l.
+Proof.
+  intros Hne. induction l as [|y r IH]; cbn; [reflexivity|].
+  destruct (Z.eqb_spec (i_id y) j) as [E|E]; cbn.
+  - destruct (Z.eqb_spec (i_id y) i); [congruence|reflexivity].
+  - destruct (Z.eqb_spec (i_id y) i); [reflexivity|exact IH].
+Qed.
+Lemma find_In i l x : find_ind i l = Some x -> In x l.
+Proof. induction l as [|y r IH]; cbn; [discriminate|]. destruct (i_id y =? i); [intros H; injection H as <-; auto|auto]. Qed.
+Lemma find_None i l : find_ind i l = None -> forall y, In y l -> i_id y <> i.
+Proof.
+  induction l as [|z r IH]; cbn; intros H y Hy; [destruct Hy|].
+  destruct (Z.eqb_spec (i_id z) i) as [E|E]; [discriminate|]. destruct Hy as [<-|Hy]; [exact E|apply IH; assumption].
+Qed.
+Lemma In_find l x : NoDup (map i_id l) -> In x l -> find_ind (i_id x) l = Some x.
+Proof.
+  induction l as [|y r IH]; cbn; intros Hnd Hx; [destruct Hx|]. inversion Hnd as [|? ? Hn Hd]; subst.
+  destruct Hx as [->|Hx]; [rewrite Z.eqb_refl; reflexivity|].
+  destruct (Z.eqb_spec (i_id y) (i_id x)) as [E|E]; [exfalso; apply Hn; rewrite E; apply in_map; exact Hx|apply IH; assumption].
+Qed.
+Lemma ids_put x l : map i_id (put_ind_l x l) = if memZ (i_id x) (map i_id l) then map i_id l else map i_id l ++ [i_id x].
+Proof.
+  induction l as [|y r IH]; cbn; [reflexivity|].
+  destruct (Z.eqb_spec (i_id y) (i_id x)) as [E|E]; cbn.
+  - rewrite E, Z.eqb_refl. cbn. reflexivity.
+  - destruct (Z.eqb_spec (i_id x) (i_id y)); [congruence|]. cbn. rewrite IH. destruct (memZ (i_id x) (map i_id r)); reflexivity.
+Qed.
+Lemma NoDup_snoc {A} (l : list A) a : NoDup l -> ~ In a l -> NoDup (l ++ [a]).
+Proof. intros H Hn. eapply Permutation_NoDup; [apply Permutation_cons_append|constructor; assumption]. Qed.
+Lemma NoDup_put x l : NoDup (map i_id l) -> NoDup (map i_id (put_ind_l x l)).
+Proof.
+  intros H. rewrite ids_put. destruct (memZ (i_id x) (map i_id l)) eqn:E; [exact H|].
+  apply NoDup_snoc; [exact H|]. rewrite <- memZ_In. congruence.
+Qed.
+Lemma In_put x l y : NoDup (map i_id l) -> In y (put_ind_l x l) -> y = x \/ (In y l /\ i_id y <> i_id x).
+Proof.
+  induction l as [|z r IH]; cbn; intros Hnd Hy; [destruct Hy as [<-|[]]; auto|]. inversion Hnd as [|? ? Hn Hd]; subst.
+  destruct (Z.eqb_spec (i_id z) (i_id x)) as [E|E].
+  - destruct Hy as [<-|Hy]; [auto|]. right. split; [auto|]. intros E2. apply Hn. rewrite E, <- E2. apply in_map. exact Hy.
+  - destruct Hy as [<-|Hy]; [right; split; [auto|exact E]|]. destruct (IH Hd Hy) as [->|[A B]]; auto.
+Qed.
+Lemma In_del i l y : NoDup (map i_id l) -> In y (del_ind_l i l) -> In y l /\ i_id y <> i.
+Proof.
+  induction l as [|z r IH]; cbn; intros Hnd Hy; [destruct Hy|]. inversion Hnd as [|? ? Hn Hd]; subst.
+  destruct (Z.eqb_spec (i_id z) i) as [E|E].
+  - split; [auto|]. intros E2. apply Hn. rewrite E, <- E2. apply in_map. exact Hy.
+  - destruct Hy as [<-|Hy]; [split; [auto|exact E]|]. destruct (IH Hd Hy) as [A B]; auto.
+Qed.
+Lemma NoDup_del i l : NoDup (map i_id l) -> NoDup (map i_id (del_ind_l i l)).
+Proof.
+  induction l as [|z r IH]; cbn; intros Hnd; [constructor|]. inversion Hnd as [|? ? Hn Hd]; subst.
+  destruct (i_id z =? i); [exact Hd|]. cbn. constructor; [|apply IH; exact Hd].
+  intros Hin. apply Hn. apply in_map_iff in Hin as (y & Ey & Hy). apply in_map_iff. exists y. split; [exact Ey|].
+  clear -Hy. induction r as [|w r IH]; cbn in *; [destruct Hy|]. destruct (i_id w =? i); [auto|]. destruct Hy as [<-|Hy]; auto.
+Qed.
+
+(* ---------- servers ---------- *)
+Lemma ids_put_server sv l : map sv_id (put_server_l sv l) = map sv_id l.
+Proof.
+  induction l as [|y r IH]; cbn; [reflexivity|]. destruct (Z.eqb_spec (sv_id y) (sv_id sv)) as [E|E]; cbn; [rewrite E; reflexivity|rewrite IH; reflexivity].
+Qed.
+Lemma In_put_server sv l y : NoDup (map sv_id l) -> In y (put_server_l sv l) -> y = sv \/ (In y l /\ sv_id y <> sv_id sv).
+Proof.
+  induction l as [|z r IH]; cbn; intros Hnd Hy; [destruct Hy|]. inversion Hnd as [|? ? Hn Hd]; subst.
+  destruct (Z.eqb_spec (sv_id z) (sv_id sv)) as [E|E].
+  - destruct Hy as [<-|Hy]; [auto|]. right. split; [auto|]. intros E2. apply Hn. rewrite E, <- E2. apply in_map. exact Hy.
+  - destruct Hy as [<-|Hy]; [right; split; [auto|exact E]|]. destruct (IH Hd Hy) as [->|[A B]]; auto.
+Qed.
+Lemma find_server_In i l sv : find_server i l = Some sv -> In sv l /\ sv_id sv = i.
+Proof.
+  induction l as [|y r IH]; cbn; [discriminate|]. destruct (Z.eqb_spec (sv_id y) i) as [E|E].
+  - intros H. injection H as <-. auto.
+  - intros H. destruct (IH H). auto.
+Qed.
+Lemma find_free_server_In l sv : find_free_server l = Some sv -> In sv l.
+Proof. induction l as [|y r IH]; cbn; [discriminate|]. destruct (sv_busy y); [auto|intros H; injection H as <-; auto]. Qed.
+
+(* the customers update_next_event_date puts into n_next_inds of a finite-server node are customers of live servers *)
+Lemma scan_servers_spec : forall l best acc c, In c (snd (scan_servers l best acc)) ->
+  In c acc \/ exists sv e, In sv l /\ sv_cust sv = Some c /\ sv_next_end sv = Some e.
+Proof.
+  induction l as [|sv r IH]; intros best acc c H; cbn [scan_servers] in H; [auto|].
+  destruct (date_lt (sv_next_end sv) best) eqn:E1.
+  - destruct (sv_next_end sv) as [e|] eqn:Ee; [|destruct best; discriminate].
+    destruct (IH _ _ _ H) as [Hc|(sv' & e' & A & B & C)]; [|right; exists sv', e'; cbn; auto].
+    destruct (sv_cust sv) as [c0|] eqn:Ec; [|destruct Hc]. destruct Hc as [<-|[]]. right. exists sv, e. cbn. auto.
+  - destruct (date_eqb (sv_next_end sv) best && match best with Some _ => true | None => false end) eqn:E2.
+    + apply andb_true_iff in E2 as [E2 E3]. destruct best as [b|]; [|discriminate].
+      destruct (sv_next_end sv) as [e|] eqn:Ee; [|discriminate].
+      destruct (IH _ _ _ H) as [Hc|(sv' & e' & A & B & C)]; [|right; exists sv', e'; cbn; auto].
+      apply in_app_or in Hc as [Hc|Hc]; [auto|]. destruct (sv_cust sv) as [c0|] eqn:Ec; [|destruct Hc]. destruct Hc as [<-|[]]. right. exists sv, e. cbn. auto.
+    + destruct (IH _ _ _ H) as [Hc|(sv' & e' & A & B & C)]; [auto|right; exists sv', e'; cbn; auto].
+Qed.
+(* ... and of an infinite-server node: customers of the node that are not blocked *)
+Lemma scan_inds_spec t il : forall q best acc c, In c (snd (scan_inds t q il best acc)) ->
+  In c acc \/ (In c q /\ exists x, find_ind c il = Some x /\ i_blocked x = false).
+Proof.
+  induction q as [|i r IH]; intros best acc c H; cbn [scan_inds] in H; [auto|].
+  assert (Hrec : forall b a, In c (snd (scan_inds t r il b a)) -> In c a \/ (In c (i :: r) /\ exists x, find_ind c il = Some x /\ i_blocked x = false)).
+  { intros b a Hc. destruct (IH _ _ _ Hc) as [A|[A B]]; [auto|right; split; [right; exact A|exact B]]. }
+  destruct (find_ind i il) as [x|] eqn:Ex; [|destruct (Hrec _ _ H); auto].
+  destruct (i_send x) as [e|]; [|destruct (Hrec _ _ H); auto].
+  destruct (negb (i_blocked x) && (t <=? e)) eqn:Eb; [|destruct (Hrec _ _ H); auto].
+  apply andb_true_iff in Eb as [Eb _]. apply negb_true_iff in Eb.
+  assert (Hi : In i (i :: r) /\ exists x, find_ind i il = Some x /\ i_blocked x = false) by (split; [left; reflexivity|eauto]).
+  destruct (date_lt (Some e) best).
+  - destruct (Hrec _ _ H) as [[<-|[]]|A]; auto.
+  - destruct (date_eqb (Some e) best).
+    + destruct (Hrec _ _ H) as [A|A]; [|auto]. apply in_app_or in A as [A|[<-|[]]]; auto.
+    + destruct (Hrec _ _ H); auto.
+Qed.
+
+(* choose_next_customer only proposes customers of the node that hold no server *)
+Lemma waiting_of_spec il : forall q c, In c (waiting_of q il) -> In c q /\ exists x, find_ind c il = Some x /\ i_server x = None.
+Proof.
+  induction q as [|i r IH]; intros c H; cbn in H; [destruct H|].
+  destruct (find_ind i il) as [x|] eqn:Ex; [|destruct (IH _ H); auto with datatypes].
+  destruct (i_server x) eqn:Es; [destruct (IH _ H); auto with datatypes|].
+  destruct H as [<-|H]; [split; [left; reflexivity|eauto]|destruct (IH _ H); auto with datatypes].
+Qed.
+Lemma first_waiting_spec il : forall qs c, In c (first_waiting qs il) -> In c (concat qs) /\ exists x, find_ind c il = Some x /\ i_server x = None.
+Proof.
+  induction qs as [|q r IH]; intros c H; cbn in H; [destruct H|].
+  destruct (waiting_of q il) as [|w0 wr] eqn:Ew.
+  - destruct (IH _ H) as [A B]. split; [cbn; apply in_or_app; auto|exact B].
+  - rewrite <- Ew in H. destruct (waiting_of_spec il q c H) as [A B]. split; [cbn; apply in_or_app; auto|exact B].
+Qed.
+
+(* ---------- nodes by identity ---------- *)
+Definition nodeZ (s : sim) (j : Z) : option node := nthZ (nodes s) (j - 1).
+Definition infb (cf : config) (j : Z) : bool :=
+  match nthZ (cf_nodes cf) (j - 1) with Some nc => match nc_c nc with None => true | Some _ => false end | None => false end.
+Lemma is_inf_spec cf j s b s' : is_inf cf j s = Ok (b, s') -> s' = s /\ b = infb cf j.
+Proof.
+  unfold is_inf, ncfg_of, infb, bind, lift. destruct (nthZ (cf_nodes cf) (j - 1)) as [nc|]; cbn; [|discriminate].
+  intros H. inversion H. auto.
+Qed.
+
+Lemma nodeZ_put nd s s' j : put_node nd s = Ok (tt, s') -> n_id nd = j -> (exists nd0, nodeZ s j = Some nd0) ->
+  (forall j', nodeZ s' j' = if j' =? j then Some nd else nodeZ s j') /\ inds s' = inds s /\ arr s' = arr s.
+Proof.
+  intros H Hid [nd0 Hn]. unfold put_node, modify in H. inversion H. subst s'. clear H. split; [|split; reflexivity].
+  intros j'. unfold nodeZ in *. cbn.
+  rewrite Hid. destruct (nthZ_nat _ _ _ Hn) as (k & Hk & Hnk).
+  destruct (j' =? j) eqn:E.
+  - apply Z.eqb_eq in E. subst j'. rewrite Hk, updZ_nat. unfold nthZ. destruct (Z.of_nat k <? 0) eqn:E0; [apply Z.ltb_lt in E0; lia|].
+    rewrite Nat2Z.id. apply (nth_error_upd_eq _ _ _ _ Hnk).
+  - apply Z.eqb_neq in E. rewrite Hk, updZ_nat. unfold nthZ. destruct (j' - 1 <? 0) eqn:E0; [reflexivity|].
+    apply Z.ltb_ge in E0. rewrite nth_error_upd_neq by lia. reflexivity.
+Qed.
+Lemma nodeZ_nat s j nd : nodeZ s j = Some nd -> exists k, j = Z.of_nat k + 1 /\ nth_error (nodes s) k = Some nd.
+Proof. intros H. destruct (nthZ_nat _ _ _ H) as (k & Hk & Hnk). exists k. split; [lia|exact Hnk]. Qed.
+Lemma nodeZ_of_nat s k : nodeZ s (Z.of_nat k + 1) = nth_error (nodes s) k.
+Proof.
+  unfold nodeZ, nthZ. replace (Z.of_nat k + 1 - 1) with (Z.of_nat k) by lia.
+  destruct (Z.of_nat k <? 0) eqn:E; [apply Z.ltb_lt in E; lia|]. rewrite Nat2Z.id. reflexivity.
+Qed.
+
+(* ---------- what conservation (Conserve.WFx) says about places ---------- *)
+Lemma NoDup_concat_unique {A} (ls : list (list A)) k1 k2 l1 l2 x :
+  NoDup (concat ls) -> nth_error ls k1 = Some l1 -> nth_error ls k2 = Some l2 -> In x l1 -> In x l2 -> k1 = k2.
+Proof.
+  revert k1 k2. induction ls as [|h t IH]; intros k1 k2 Hnd H1 H2 I1 I2; [destruct k1; discriminate|].
+  cbn in Hnd. assert (Hd : forall y, In y h -> In y (concat t) -> False).
+  { intros y Ha Hb. clear -Hnd Ha Hb. induction h as [|a h IHh]; [destruct Ha|]. cbn in Hnd. inversion Hnd as [|? ? Hn Hd]; subst.
+    destruct Ha as [->|Ha]; [apply Hn, in_or_app; auto|apply IHh; assumption]. }
+  assert (Hin : forall k l, nth_error t k = Some l -> In x l -> In x (concat t)).
+  { intros k l Hk Hl. apply in_concat. exists l. split; [eapply nth_error_In; eauto|exact Hl]. }
+  destruct k1 as [|k1], k2 as [|k2]; cbn in H1, H2.
+  - reflexivity.
+  - injection H1 as <-. exfalso. eapply Hd; [exact I1|eapply Hin; eauto].
+  - injection H2 as <-. exfalso. eapply Hd; [exact I2|eapply Hin; eauto].
+  - f_equal. eapply IH; eauto. clear -Hnd. induction h as [|a h IHh]; [exact Hnd|]. cbn in Hnd. inversion Hnd; subst. auto.
+Qed.
+Lemma NoDup_app_l {A} (a b : list A) : NoDup (a ++ b) -> NoDup a.
+Proof. induction a as [|x a IH]; cbn; intros H; [constructor|]. inversion H as [|? ? Hn Hd]; subst. constructor; [intros Hx; apply Hn, in_or_app; auto|auto]. Qed.
+
+Lemma WFx_ids fl s : WFx fl s -> NoDup ((concat (map all_individuals (nodes s)) ++ exit_ids s) ++ fl).
+Proof.
+  intros (_ & _ & _ & HP). unfold shp in HP. cbn [sh_ids sh_created] in HP. rewrite map_map in HP.
+  eapply Permutation_NoDup; [symmetry; exact HP|apply zseq_NoDup].
+Qed.
+Lemma WFx_place fl s j1 j2 nd1 nd2 c : WFx fl s -> nodeZ s j1 = Some nd1 -> nodeZ s j2 = Some nd2 ->
+  In c (all_individuals nd1) -> In c (all_individuals nd2) -> j1 = j2.
+Proof.
+  intros HW H1 H2 I1 I2. apply nodeZ_nat in H1 as (k1 & -> & H1). apply nodeZ_nat in H2 as (k2 & -> & H2).
+  pose proof (WFx_ids _ _ HW) as Hnd. apply NoDup_app_l, NoDup_app_l in Hnd.
+  assert (k1 = k2); [|lia].
+  eapply (NoDup_concat_unique (map all_individuals (nodes s))); [exact Hnd| | |exact I1|exact I2]; rewrite nth_error_map; [rewrite H1|rewrite H2]; reflexivity.
+Qed.
+Lemma WFx_inflight i fl s j nd : WFx (i :: fl) s -> nodeZ s j = Some nd -> ~ In i (all_individuals nd).
+Proof.
+  intros HW H1 Hin. apply nodeZ_nat in H1 as (k & -> & H1). pose proof (WFx_ids _ _ HW) as Hnd.
+  apply NoDup_remove_2 in Hnd. apply Hnd. apply in_or_app. left. apply in_or_app. left.
+  apply in_concat. exists (all_individuals nd). split; [apply in_map; eapply nth_error_In; eauto|exact Hin].
+Qed.
+
+(* ---------- the invariant about who is blocked ---------- *)
+Definition entry (s : sim) (d from y : Z) : Prop := exists nd, nodeZ s d = Some nd /\ In (from, y) (n_bq nd).
+Definition at_node (s : sim) (j y : Z) : Prop := exists nd, nodeZ s j = Some nd /\ In y (all_individuals nd).
+(* customer i is in no blocked queue / is the customer of no server that has an end-of-service date *)
+Definition N0 (s : sim) (i : Z) : Prop := forall d from, ~ entry s d from i.
+Definition NL (s : sim) (i : Z) : Prop :=
+  forall j nd sv e, nodeZ s j = Some nd -> In sv (n_servers nd) -> sv_next_end sv = Some e -> sv_cust sv <> Some i.
+
+Record W (cf : config) (ex : list Z) (s : sim) : Prop := mkW {
+  (* the customer table: one record per identifier, identifiers are at most the creation counter *)
+  w_nd : NoDup (map i_id (inds s));
+  w_le : forall x, In x (inds s) -> i_id x <= a_created (arr s);
+  (* nobody is twice in a blocked queue *)
+  w_bqnd : forall j nd, nodeZ s j = Some nd -> NoDup (map snd (n_bq nd));
+  (* an entry (from, y) of the blocked queue of d: y is a customer of node `from`, flagged blocked, with destination d,
+     holding a server when `from` has finitely many *)
+  w_ent : forall d from y, entry s d from y ->
+    exists x, find_ind y (inds s) = Some x /\ i_blocked x = true /\ i_dest x = Some d /\ at_node s from y /\
+              (infb cf from = true \/ i_server x <> None);
+  (* conversely a customer flagged blocked is in a blocked queue (ex: the customer `release` is moving right now) *)
+  w_blk : forall x, In x (inds s) -> i_blocked x = true -> In (i_id x) ex \/ exists d from, entry s d from (i_id x);
+  (* servers: distinct identifiers; a server with an end-of-service date serves a customer of its node that is not
+     blocked and that knows this server *)
+  w_svnd : forall j nd, nodeZ s j = Some nd -> NoDup (map sv_id (n_servers nd));
+  w_live : forall j nd sv e c, nodeZ s j = Some nd -> In sv (n_servers nd) -> sv_next_end sv = Some e -> sv_cust sv = Some c ->
+    In c (all_individuals nd) /\ exists x, find_ind c (inds s) = Some x /\ i_blocked x = false /\ i_server x = Some (sv_id sv);
+  (* an infinite-server node has no server objects *)
+  w_inf : forall j nd, nodeZ s j = Some nd -> infb cf j = true -> n_servers nd = []
+}.
+
+Lemma entry_nodes s s' d from y : (forall j, option_map n_bq (nodeZ s' j) = option_map n_bq (nodeZ s j)) -> entry s d from y -> entry s' d from y.
+Proof.
+  intros H (nd & Hn & Hin). specialize (H d). rewrite Hn in H. destruct (nodeZ s' d) as [nd'|] eqn:En'; [|discriminate].
+  cbn in H. injection H as H. exists nd'. split; [exact En'|rewrite H; exact Hin].
+Qed.
+Lemma N0_nodes s s' i : (forall j, option_map n_bq (nodeZ s' j) = option_map n_bq (nodeZ s j)) -> N0 s i -> N0 s' i.
+Proof. intros H HN d from He. apply (HN d from). eapply entry_nodes; [|exact He]. intros j. symmetry. apply H. Qed.
+Lemma nodeZ_BV s s' j : BV s' = BV s -> option_map n_bq (nodeZ s' j) = option_map n_bq (nodeZ s j).
+Proof.
+  intros H. pose proof (bvZ_BV s s' j H) as E. unfold bvZ in E. fold (nodeZ s' j) in E. fold (nodeZ s j) in E.
+  destruct (nodeZ s' j) as [a|], (nodeZ s j) as [b|]; cbn in *; try discriminate; [|reflexivity]. injection E as _ E _. rewrite E. reflexivity.
+Qed.
+Lemma N0_BV s s' i : BV s' = BV s -> N0 s i -> N0 s' i.
+Proof. intros H. apply N0_nodes. intros j. apply nodeZ_BV. exact H. Qed.
+
+Lemma W_ex_mono cf ex ex' s : (forall y, In y ex -> In y ex') -> W cf ex s -> W cf ex' s.
+Proof.
+  intros H [A B C D E F G Hnf]. constructor; auto. intros x Hx Hb. destruct (E x Hx Hb) as [E1|E1]; auto.
+Qed.
+(* a customer in flight is nobody's live customer *)
+Lemma NL_inflight cf ex i fl s : WFx (i :: fl) s -> W cf ex s -> NL s i.
+Proof.
+  intros HW HWw j nd sv e Hn Hsv He Hc. destruct (w_live _ _ _ HWw j nd sv e i Hn Hsv He Hc) as [Hin _].
+  exact (WFx_inflight _ _ _ _ _ HW Hn Hin).
+Qed.
+(* a customer flagged blocked is nobody's live customer; one not flagged is in no blocked queue *)
+Lemma NL_blocked cf ex s i x : W cf ex s -> find_ind i (inds s) = Some x -> i_blocked x = true -> NL s i.
+Proof.
+  intros HWw Hx Hb j nd sv e Hn Hsv He Hc. destruct (w_live _ _ _ HWw j nd sv e i Hn Hsv He Hc) as (_ & x' & Hx' & Hb' & _). congruence.
+Qed.
+Lemma N0_unblocked cf ex s i x : W cf ex s -> find_ind i (inds s) = Some x -> i_blocked x = false -> N0 s i.
+Proof. intros HWw Hx Hb d from He. destruct (w_ent _ _ _ HWw d from i He) as (x' & Hx' & Hb' & _). congruence. Qed.
+
+(* ---------- primitive changes of the customer table ---------- *)
+Section Prim.
+  Variable cf : config.
+  Variables s s' : sim.
+  Hypothesis Hnodes : forall j, nodeZ s' j = nodeZ s j.
+  Hypothesis Hcr : a_created (arr s) <= a_created (arr s').
+
+  Lemma entry_same d from y : entry s' d from y <-> entry s d from y.
+  Proof. unfold entry. rewrite Hnodes. reflexivity. Qed.
+  Lemma at_node_same j y : at_node s' j y <-> at_node s j y.
+  Proof. unfold at_node. rewrite Hnodes. reflexivity. Qed.
+
+  (* the record x of customer i is replaced by x' *)
+  Lemma W_put_ind ex ex' i x x' : W cf ex s -> find_ind i (inds s) = Some x -> i_id x' = i -> inds s' = put_ind_l x' (inds s) ->
+    ((i_blocked x' = i_blocked x /\ i_server x' = i_server x) \/ NL s i) ->
+    ((i_blocked x' = i_blocked x /\ i_dest x' = i_dest x /\ i_server x' = i_server x) \/ N0 s i) ->
+    (forall y, In y ex -> y <> i -> In y ex') ->
+    (i_blocked x' = true -> In i ex' \/ exists d from, entry s d from i) ->
+    W cf ex' s'.
+  Proof.
+    intros [A B C D E F G Hnf] Hx Hid Hinds Sc Pc Hex Bc. constructor.
+    - rewrite Hinds. apply NoDup_put. exact A.
+    - intros y Hy. rewrite Hinds in Hy. apply (In_put _ _ _ A) in Hy as [->|[Hy _]].
+      + rewrite Hid. pose proof (B x (find_In _ _ _ Hx)) as Hle. rewrite (find_ind_id _ _ _ Hx) in Hle. lia.
+      + specialize (B y Hy). lia.
+    - intros j nd Hn. rewrite Hnodes in Hn. eauto.
+    - intros d from y He. apply entry_same in He. destruct (D d from y He) as (xy & Hxy & Hb & Hd & Ha & Hs).
+      rewrite Hinds. destruct (Z.eq_dec y i) as [->|Hne].
+      + destruct Pc as [(P1 & P2 & P3)|Pc]; [|exfalso; exact (Pc d from He)].
+        exists x'. rewrite <- Hid at 1. rewrite find_put_same. rewrite Hx in Hxy. injection Hxy as <-.
+        split; [reflexivity|]. split; [congruence|]. split; [congruence|]. split; [apply at_node_same; exact Ha|]. rewrite P3. exact Hs.
+      + exists xy. rewrite find_put_other by congruence. split; [exact Hxy|]. split; [exact Hb|]. split; [exact Hd|]. split; [apply at_node_same; exact Ha|exact Hs].
+    - intros y Hy Hb. rewrite Hinds in Hy. apply (In_put _ _ _ A) in Hy as [->|[Hy Hne]].
+      + rewrite Hid. destruct (Bc Hb) as [Bc1|(d & from & Bc1)]; [auto|right; exists d, from; apply entry_same; exact Bc1].
+      + rewrite Hid in Hne. destruct (E y Hy Hb) as [E1|(d & from & E1)]; [auto|right; exists d, from; apply entry_same; exact E1].
+    - intros j nd Hn. rewrite Hnodes in Hn. eauto.
+    - intros j nd sv e c Hn Hsv He Hc. rewrite Hnodes in Hn. destruct (G j nd sv e c Hn Hsv He Hc) as (Hin & xc & Hxc & Hb & Hs).
+      split; [exact Hin|]. rewrite Hinds. destruct (Z.eq_dec c i) as [->|Hne].
+      + destruct Sc as [(S1 & S2)|Sc]; [|exfalso; exact (Sc j nd sv e Hn Hsv He Hc)].
+        exists x'. rewrite <- Hid at 1. rewrite find_put_same. rewrite Hx in Hxc. injection Hxc as <-. split; [reflexivity|]. split; congruence.
+      + exists xc. rewrite find_put_other by congruence. auto.
+    - intros j nd Hn Hinf. rewrite Hnodes in Hn. eauto.
+  Qed.
+
+  (* a record for a new identifier *)
+  Lemma W_put_new ex x' : W cf ex s -> find_ind (i_id x') (inds s) = None -> inds s' = put_ind_l x' (inds s) ->
+    i_id x' <= a_created (arr s') -> i_blocked x' = false -> W cf ex s'.
+  Proof.
+    intros [A B C D E F G Hnf] Hx Hinds Hle Hb. constructor.
+    - rewrite Hinds. apply NoDup_put. exact A.
+    - intros y Hy. rewrite Hinds in Hy. apply (In_put _ _ _ A) in Hy as [->|[Hy _]]; [exact Hle|]. specialize (B y Hy). lia.
+    - intros j nd Hn. rewrite Hnodes in Hn. eauto.
+    - intros d from y He. apply entry_same in He. destruct (D d from y He) as (xy & Hxy & Hb' & Hd & Ha & Hs).
+      exists xy. rewrite Hinds, find_put_other by congruence. split; [exact Hxy|]. split; [exact Hb'|]. split; [exact Hd|]. split; [apply at_node_same; exact Ha|exact Hs].
+    - intros y Hy Hby. rewrite Hinds in Hy. apply (In_put _ _ _ A) in Hy as [->|[Hy Hne]]; [congruence|].
+      destruct (E y Hy Hby) as [E1|(d & from & E1)]; [auto|right; exists d, from; apply entry_same; exact E1].
+    - intros j nd Hn. rewrite Hnodes in Hn. eauto.
+    - intros j nd sv e c Hn Hsv He Hc. rewrite Hnodes in Hn. destruct (G j nd sv e c Hn Hsv He Hc) as (Hin & xc & Hxc & Hbc & Hs).
+      split; [exact Hin|]. exists xc. rewrite Hinds, find_put_other by congruence. auto.
+    - intros j nd Hn Hinf. rewrite Hnodes in Hn. eauto.
+  Qed.
+
+  (* the record of customer i, who is in no blocked queue and nobody's live customer, is deleted *)
+  Lemma W_del_ind ex ex' i : W cf ex s -> inds s' = del_ind_l i (inds s) -> N0 s i -> NL s i ->
+    (forall y, In y ex -> y <> i -> In y ex') -> W cf ex' s'.
+  Proof.
+    intros [A B C D E F G Hnf] Hinds HN0 HNL Hex. constructor.
+    - rewrite Hinds. apply NoDup_del. exact A.
+    - intros y Hy. rewrite Hinds in Hy. apply (In_del _ _ _ A) in Hy as [Hy _]. specialize (B y Hy). lia.
+    - intros j nd Hn. rewrite Hnodes in Hn. eauto.
+    - intros d from y He. apply entry_same in He. destruct (D d from y He) as (xy & Hxy & Hb' & Hd & Ha & Hs).
+      assert (Hne : y <> i) by (intros ->; exact (HN0 d from He)).
+      exists xy. rewrite Hinds, find_del_other by exact Hne. split; [exact Hxy|]. split; [exact Hb'|]. split; [exact Hd|]. split; [apply at_node_same; exact Ha|exact Hs].
+    - intros y Hy Hby. rewrite Hinds in Hy. apply (In_del _ _ _ A) in Hy as [Hy Hne].
+      destruct (E y Hy Hby) as [E1|(d & from & E1)]; [auto|right; exists d, from; apply entry_same; exact E1].
+    - intros j nd Hn. rewrite Hnodes in Hn. eauto.
+    - intros j nd sv e c Hn Hsv He Hc. rewrite Hnodes in Hn. destruct (G j nd sv e c Hn Hsv He Hc) as (Hin & xc & Hxc & Hbc & Hs).
+      assert (Hne : c <> i) by (intros ->; exact (HNL j nd sv e Hn Hsv He Hc)).
+      split; [exact Hin|]. exists xc. rewrite Hinds, find_del_other by exact Hne. auto.
+    - intros j nd Hn Hinf. rewrite Hnodes in Hn. eauto.
+  Qed.
+
+  (* nothing W looks at changes *)
+  Lemma W_same ex : W cf ex s -> inds s' = inds s -> W cf ex s'.
+  Proof.
+    intros [A B C D E F G Hnf] Hinds. constructor.
+    - rewrite Hinds. exact A.
+    - intros y Hy. rewrite Hinds in Hy. specialize (B y Hy). lia.
+    - intros j nd Hn. rewrite Hnodes in Hn. eauto.
+    - intros d from y He. apply entry_same in He. destruct (D d from y He) as (xy & Hxy & Hb' & Hd & Ha & Hs).
+      exists xy. rewrite Hinds. split; [exact Hxy|]. split; [exact Hb'|]. split; [exact Hd|]. split; [apply at_node_same; exact Ha|exact Hs].
+    - intros y Hy Hby. rewrite Hinds in Hy. destruct (E y Hy Hby) as [E1|(d & from & E1)]; [auto|right; exists d, from; apply entry_same; exact E1].
+    - intros j nd Hn. rewrite Hnodes in Hn. eauto.
+    - intros j nd sv e c Hn Hsv He Hc. rewrite Hnodes in Hn. rewrite Hinds. eauto.
+    - intros j nd Hn Hinf. rewrite Hnodes in Hn. eauto.
+  Qed.
+End Prim.
+
+(* ---------- primitive changes of one node ---------- *)
+Section PrimNode.
+  Variable cf : config.
+  Variables s s' : sim.
+  Variables (j : Z) (nd nd' : node).
+  Hypothesis Hn : nodeZ s j = Some nd.
+  Hypothesis Hput : forall j', nodeZ s' j' = if j' =? j then Some nd' else nodeZ s j'.
+  Hypothesis Hinds : inds s' = inds s.
+  Hypothesis Hcr : a_created (arr s) <= a_created (arr s').
+
+  Lemma nodeZ_new : nodeZ s' j = Some nd'.
+  Proof. rewrite Hput, Z.eqb_refl. reflexivity. Qed.
+  Lemma nodeZ_other j' : j' <> j -> nodeZ s' j' = nodeZ s j'.
+  Proof. intros H. rewrite Hput. destruct (Z.eqb_spec j' j); [contradiction|reflexivity]. Qed.
+  Lemma nodeZ_cases j' n : nodeZ s' j' = Some n -> (j' = j /\ n = nd') \/ (j' <> j /\ nodeZ s j' = Some n).
+  Proof. rewrite Hput. destruct (Z.eqb_spec j' j); intros H; [left; split; congruence|right; auto]. Qed.
+
+  Lemma entry_bq_same d from y : n_bq nd' = n_bq nd -> (entry s' d from y <-> entry s d from y).
+  Proof.
+    intros Hb. unfold entry. split; intros (n & Hnn & Hin).
+    - apply nodeZ_cases in Hnn as [[-> ->]|[Hne Hnn]]; [exists nd; rewrite <- Hb; auto|exists n; auto].
+    - destruct (Z.eq_dec d j) as [->|Hne].
+      + rewrite Hn in Hnn. injection Hnn as <-. exists nd'. rewrite nodeZ_new, Hb. auto.
+      + exists n. rewrite nodeZ_other by exact Hne. auto.
+  Qed.
+  Lemma at_node_mono from y : (In y (all_individuals nd) -> In y (all_individuals nd')) -> at_node s from y -> at_node s' from y.
+  Proof.
+    intros Hq (n & Hnn & Hin). destruct (Z.eq_dec from j) as [->|Hne].
+    - rewrite Hn in Hnn. injection Hnn as <-. exists nd'. rewrite nodeZ_new. auto.
+    - exists n. rewrite nodeZ_other by exact Hne. auto.
+  Qed.
+
+  (* the queues change, every customer that disappears from them being in no blocked queue and nobody's live customer *)
+  Lemma W_node_q ex : n_servers nd' = n_servers nd -> n_bq nd' = n_bq nd ->
+    (forall y, In y (all_individuals nd) -> (N0 s y /\ NL s y) \/ In y (all_individuals nd')) ->
+    W cf ex s -> W cf ex s'.
+  Proof.
+    intros Hsv Hb Hq [A B C D E F G Hnf]. constructor.
+    - rewrite Hinds. exact A.
+    - intros y Hy. rewrite Hinds in Hy. specialize (B y Hy). lia.
+    - intros j' n Hnn. apply nodeZ_cases in Hnn as [[-> ->]|[Hne Hnn]]; [rewrite Hb|]; eauto.
+    - intros d from y He. pose proof He as He'. apply (entry_bq_same _ _ _ Hb) in He. destruct (D d from y He) as (xy & Hxy & Hb' & Hd & Ha & Hs).
+      exists xy. rewrite Hinds. split; [exact Hxy|]. split; [exact Hb'|]. split; [exact Hd|]. split; [|exact Hs].
+      eapply at_node_mono; [|exact Ha]. intros Hin. destruct (Hq y Hin) as [[HN0 _]|Hin']; [exfalso; exact (HN0 d from He)|exact Hin'].
+    - intros y Hy Hby. rewrite Hinds in Hy. destruct (E y Hy Hby) as [E1|(d & from & E1)]; [auto|right; exists d, from; apply (entry_bq_same _ _ _ Hb); exact E1].
+    - intros j' n Hnn. apply nodeZ_cases in Hnn as [[-> ->]|[Hne Hnn]]; [rewrite Hsv|]; eauto.
+    - intros j' n sv e c Hnn Hsvin He Hc. rewrite Hinds. apply nodeZ_cases in Hnn as [[-> ->]|[Hne Hnn]]; [|eauto].
+      rewrite Hsv in Hsvin. destruct (G j nd sv e c Hn Hsvin He Hc) as (Hin & R). split; [|exact R].
+      destruct (Hq c Hin) as [[_ HNL]|Hin']; [exfalso; exact (HNL j nd sv e Hn Hsvin He Hc)|exact Hin'].
+    - intros j' n Hnn Hinf. apply nodeZ_cases in Hnn as [[-> ->]|[Hne Hnn]]; [rewrite Hsv|]; eauto.
+  Qed.
+
+  (* one server is rewritten *)
+  Lemma W_node_sv ex sv' : n_queues nd' = n_queues nd -> n_bq nd' = n_bq nd -> n_servers nd' = put_server_l sv' (n_servers nd) ->
+    (forall e c, sv_next_end sv' = Some e -> sv_cust sv' = Some c ->
+       In c (all_individuals nd) /\ exists x, find_ind c (inds s) = Some x /\ i_blocked x = false /\ i_server x = Some (sv_id sv')) ->
+    W cf ex s -> W cf ex s'.
+  Proof.
+    intros Hq Hb Hsv Hnew [A B C D E F G Hnf].
+    assert (Hall : all_individuals nd' = all_individuals nd) by (unfold all_individuals; rewrite Hq; reflexivity).
+    constructor.
+    - rewrite Hinds. exact A.
+    - intros y Hy. rewrite Hinds in Hy. specialize (B y Hy). lia.
+    - intros j' n Hnn. apply nodeZ_cases in Hnn as [[-> ->]|[Hne Hnn]]; [rewrite Hb|]; eauto.
+    - intros d from y He. apply (entry_bq_same _ _ _ Hb) in He. destruct (D d from y He) as (xy & Hxy & Hb' & Hd & Ha & Hs).
+      exists xy. rewrite Hinds. split; [exact Hxy|]. split; [exact Hb'|]. split; [exact Hd|]. split; [|exact Hs].
+      eapply at_node_mono; [|exact Ha]. rewrite Hall. auto.
+    - intros y Hy Hby. rewrite Hinds in Hy. destruct (E y Hy Hby) as [E1|(d & from & E1)]; [auto|right; exists d, from; apply (entry_bq_same _ _ _ Hb); exact E1].
+    - intros j' n Hnn. apply nodeZ_cases in Hnn as [[-> ->]|[Hne Hnn]]; [rewrite Hsv, ids_put_server|]; eauto.
+    - intros j' n sv e c Hnn Hsvin He Hc. rewrite Hinds. apply nodeZ_cases in Hnn as [[-> ->]|[Hne Hnn]]; [|eauto].
+      rewrite Hsv in Hsvin. rewrite Hall. apply (In_put_server _ _ _ (F j nd Hn)) in Hsvin as [->|[Hsvin _]]; [apply (Hnew e c He Hc)|eauto].
+    - intros j' n Hnn Hinf. apply nodeZ_cases in Hnn as [[-> ->]|[Hne Hnn]]; [rewrite Hsv, (Hnf j nd Hn Hinf); reflexivity|eauto].
+  Qed.
+
+  (* the head of the blocked queue is taken: that customer is, for the moment, flagged blocked without being in a queue *)
+  Lemma W_node_pop ex e rest : all_individuals nd' = all_individuals nd -> n_servers nd' = n_servers nd -> n_bq nd = e :: rest -> n_bq nd' = rest ->
+    W cf ex s -> W cf (snd e :: ex) s'.
+  Proof.
+    intros Hall Hsv Hb Hb' [A B C D E F G Hnf].
+    assert (Hsub : forall d from y, entry s' d from y -> entry s d from y).
+    { intros d from y (n & Hnn & Hin). apply nodeZ_cases in Hnn as [[-> ->]|[Hne Hnn]]; [exists nd; rewrite Hb; rewrite Hb' in Hin; split; [exact Hn|right; exact Hin]|exists n; auto]. }
+    constructor.
+    - rewrite Hinds. exact A.
+    - intros y Hy. rewrite Hinds in Hy. specialize (B y Hy). lia.
+    - intros j' n Hnn. apply nodeZ_cases in Hnn as [[-> ->]|[Hne Hnn]]; [|eauto].
+      specialize (C j nd Hn). rewrite Hb in C. cbn [map] in C. apply NoDup_cons_iff in C as [_ C]. rewrite Hb'. exact C.
+    - intros d from y He. apply Hsub in He. destruct (D d from y He) as (xy & Hxy & Hbk & Hd & Ha & Hs).
+      exists xy. rewrite Hinds. split; [exact Hxy|]. split; [exact Hbk|]. split; [exact Hd|]. split; [|exact Hs].
+      eapply at_node_mono; [|exact Ha]. rewrite Hall. auto.
+    - intros y Hy Hby. rewrite Hinds in Hy. destruct (E y Hy Hby) as [E1|(d & from & (n & Hnn & Hin))]; [left; right; exact E1|].
+      destruct (Z.eq_dec d j) as [->|Hne].
+      + rewrite Hn in Hnn. injection Hnn as <-. rewrite Hb in Hin. destruct Hin as [->|Hin]; [left; left; reflexivity|].
+        right. exists j, from, nd'. rewrite nodeZ_new, Hb'. auto.
+      + right. exists d, from, n. rewrite nodeZ_other by exact Hne. auto.
+    - intros j' n Hnn. apply nodeZ_cases in Hnn as [[-> ->]|[Hne Hnn]]; [rewrite Hsv|]; eauto.
+    - intros j' n sv e0 c Hnn Hsvin He Hc. rewrite Hinds. apply nodeZ_cases in Hnn as [[-> ->]|[Hne Hnn]]; [|eauto].
+      rewrite Hsv in Hsvin. rewrite Hall. eauto.
+    - intros j' n Hnn Hinf. apply nodeZ_cases in Hnn as [[-> ->]|[Hne Hnn]]; [rewrite Hsv|]; eauto.
+  Qed.
+
+  (* customer i of node `from`, already flagged blocked with destination j, joins the end of j's blocked queue *)
+  Lemma W_node_push ex ex' from i x : all_individuals nd' = all_individuals nd -> n_servers nd' = n_servers nd -> n_bq nd' = n_bq nd ++ [(from, i)] ->
+    find_ind i (inds s) = Some x -> i_blocked x = true -> i_dest x = Some j -> at_node s from i -> (infb cf from = true \/ i_server x <> None) ->
+    N0 s i -> (forall y, In y ex -> y <> i -> In y ex') ->
+    W cf ex s -> W cf ex' s'.
+  Proof.
+    intros Hall Hsv Hb Hx Hbx Hdx Hax Hsx HN0 Hex [A B C D E F G Hnf].
+    assert (Hsup : forall d from0 y, entry s d from0 y -> entry s' d from0 y).
+    { intros d from0 y (n & Hnn & Hin). destruct (Z.eq_dec d j) as [->|Hne].
+      - rewrite Hn in Hnn. injection Hnn as <-. exists nd'. rewrite nodeZ_new, Hb. split; [reflexivity|apply in_or_app; auto].
+      - exists n. rewrite nodeZ_other by exact Hne. auto. }
+    assert (Hat : forall f y, at_node s f y -> at_node s' f y) by (intros f y; apply at_node_mono; rewrite Hall; auto).
+    constructor.
+    - rewrite Hinds. exact A.
+    - intros y Hy. rewrite Hinds in Hy. specialize (B y Hy). lia.
+    - intros j' n Hnn. apply nodeZ_cases in Hnn as [[-> ->]|[Hne Hnn]]; [|eauto].
+      rewrite Hb, map_app. cbn. apply NoDup_snoc; [eauto|]. intros Hin. apply in_map_iff in Hin as ([f y] & Ey & Hin). cbn in Ey. subst y.
+      apply (HN0 j f). exists nd. auto.
+    - intros d from0 y (n & Hnn & Hin). rewrite Hinds. apply nodeZ_cases in Hnn as [[-> ->]|[Hne Hnn]].
+      + rewrite Hb in Hin. apply in_app_or in Hin as [Hin|[Hin|[]]].
+        * destruct (D j from0 y (ex_intro _ nd (conj Hn Hin))) as (xy & Hxy & Hbk & Hd & Ha & Hs). exists xy. auto 8.
+        * injection Hin as <- <-. exists x. auto 8.
+      + destruct (D d from0 y (ex_intro _ n (conj Hnn Hin))) as (xy & Hxy & Hbk & Hd & Ha & Hs). exists xy. auto 8.
+    - intros y Hy Hby. rewrite Hinds in Hy. destruct (Z.eq_dec (i_id y) i) as [Hi|Hne].
+      + right. exists j, from, nd'. rewrite nodeZ_new, Hb, Hi. split; [reflexivity|apply in_or_app; right; left; reflexivity].
+      + destruct (E y Hy Hby) as [E1|(d & from0 & E1)]; [auto|right; exists d, from0; auto].
+    - intros j' n Hnn. apply nodeZ_cases in Hnn as [[-> ->]|[Hne Hnn]]; [rewrite Hsv|]; eauto.
+    - intros j' n sv e0 c Hnn Hsvin He Hc. rewrite Hinds. apply nodeZ_cases in Hnn as [[-> ->]|[Hne Hnn]]; [|eauto].
+      rewrite Hsv in Hsvin. rewrite Hall. eauto.
+    - intros j' n Hnn Hinf. apply nodeZ_cases in Hnn as [[-> ->]|[Hne Hnn]]; [rewrite Hsv|]; eauto.
+  Qed.
+End PrimNode.
+
+(* ---------- actions that touch neither the customer table, nor the nodes, nor the counters ---------- *)
+Definition quiet {A} (m : M A) : Prop := forall s a s', m s = Ok (a, s') ->
+  inds s' = inds s /\ nodes s' = nodes s /\ a_created (arr s') = a_created (arr s) /\ exit_ids s' = exit_ids s /\ exit_n s' = exit_n s.
+Lemma quiet_ro {A} (m : M A) : ro m -> quiet m.
+Proof. intros Hm s a s' H. apply Hm in H. rewrite H. auto. Qed.
+Lemma quiet_ret {A} (a : A) : quiet (ret a). Proof. apply quiet_ro, ro_ret. Qed.
+Lemma quiet_fail {A} e : quiet (@fail A e). Proof. intros s a s' H. discriminate. Qed.
+Lemma quiet_gets {A} (f : sim -> A) : quiet (gets f). Proof. apply quiet_ro, ro_gets. Qed.
+Lemma quiet_lift {A} e (o : option A) : quiet (lift e o). Proof. apply quiet_ro, ro_lift. Qed.
+Lemma quiet_get_node j : quiet (get_node j). Proof. apply quiet_ro, ro_get_node. Qed.
+Lemma quiet_get_ind i : quiet (get_ind i). Proof. apply quiet_ro, ro_get_ind. Qed.
+Lemma quiet_bind {A B} (m : M A) (f : A -> M B) : quiet m -> (forall a, quiet (f a)) -> quiet (bind m f).
+Proof.
+  intros Hm Hf s b s' H. unfold bind in H. destruct (m s) as [[a s1]| |] eqn:E; try discriminate.
+  destruct (Hm _ _ _ E) as (A1 & A2 & A3 & A4 & A5). destruct (Hf a _ _ _ H) as (B1 & B2 & B3 & B4 & B5).
+  repeat split; congruence.
+Qed.
+Lemma quiet_modify (f : sim -> sim) :
+  (forall s, inds (f s) = inds s /\ nodes (f s) = nodes s /\ a_created (arr (f s)) = a_created (arr s) /\ exit_ids (f s) = exit_ids s /\ exit_n (f s) = exit_n s) ->
+  quiet (modify f).
+Proof. intros Hf s a s' H. inversion H. apply Hf. Qed.
+Lemma quiet_log_rec r : quiet (log_rec r). Proof. apply quiet_modify. intros s. repeat split; reflexivity. Qed.
+Lemma quiet_draw_arr : quiet draw_arr.
+Proof. intros s a s' H. unfold draw_arr in H. destruct (d_arr (dr s)); inversion H. repeat split; reflexivity. Qed.
+Lemma quiet_draw_batch : quiet draw_batch.
+Proof. intros s a s' H. unfold draw_batch in H. destruct (d_batch (dr s)); inversion H. repeat split; reflexivity. Qed.
+Lemma quiet_draw_svc : quiet draw_svc.
+Proof. intros s a s' H. unfold draw_svc in H. destruct (d_svc (dr s)); inversion H. repeat split; reflexivity. Qed.
+Lemma quiet_draw_unif : quiet draw_unif.
+Proof. intros s a s' H. unfold draw_unif in H. destruct (d_unif (dr s)); inversion H. repeat split; reflexivity. Qed.
+
+Ltac q_step :=
+  first
+    [ apply quiet_ret | apply quiet_fail | apply quiet_gets | apply quiet_lift | apply quiet_get_node | apply quiet_get_ind
+    | apply quiet_log_rec | apply quiet_draw_arr | apply quiet_draw_batch | apply quiet_draw_svc | apply quiet_draw_unif
+    | (apply quiet_bind; [|intros])
+    | match goal with
+      | |- quiet (if ?b then _ else _) => destruct b
+      | |- quiet (match ?x with _ => _ end) => destruct x
+      | |- quiet (let '(_, _) := ?x in _) => destruct x
+      end ].
+
+Lemma get_ind_spec i s x s' : get_ind i s = Ok (x, s') -> s' = s /\ find_ind i (inds s) = Some x.
+Proof. unfold get_ind. destruct (find_ind i (inds s)) eqn:E; intros H; inversion H. subst. auto. Qed.
+Lemma put_ind_spec x s s' : put_ind x s = Ok (tt, s') -> inds s' = put_ind_l x (inds s) /\ nodes s' = nodes s /\ arr s' = arr s /\ shp s' = shp s.
+Proof. unfold put_ind, modify. intros H. inversion H. repeat split; reflexivity. Qed.
+
+Section Quiet.
+  Variable cf : config.
+  Lemma q_ncfg_of j : quiet (ncfg_of cf j). Proof. apply quiet_lift. Qed.
+  Lemma q_is_inf j : quiet (is_inf cf j). Proof. apply quiet_ro, ro_is_inf. Qed.
+  Lemma q_choice_uniform {A} (l : list A) : quiet (choice_uniform l). Proof. unfold choice_uniform. repeat q_step. Qed.
+  Lemma q_choice_weighted den P : quiet (choice_weighted den P). Proof. unfold choice_weighted. repeat q_step. Qed.
+  Lemma q_choose_next_customer nd : quiet (choose_next_customer cf nd).
+  Proof. unfold choose_next_customer. repeat first [apply q_ncfg_of | apply q_choice_uniform | q_step]. Qed.
+  Lemma q_write_br_record j x ty : quiet (write_br_record j x ty). Proof. unfold write_br_record. repeat q_step. Qed.
+  Lemma q_find_next_event_date : quiet find_next_event_date.
+  Proof. apply quiet_modify. intros s. destruct (find_min_dates 1 (a_dates (arr s)) (None, 0, 0)) as [[d j] c]. repeat split; reflexivity. Qed.
+  Lemma q_find_next_active_node : quiet find_next_active_node.
+  Proof.
+    unfold find_next_active_node. apply quiet_bind; [apply quiet_gets|]. intros s0.
+    destruct (scan_active 0 (a_next_date (arr s0) :: map n_next_date (nodes s0)) None [] true) as [d cands].
+    apply quiet_bind; [destruct cands as [|a [|b r]]; [apply quiet_fail|apply quiet_ret|apply q_choice_uniform]|].
+    intros k. apply quiet_modify. intros s. repeat split; reflexivity.
+  Qed.
+
+  (* what choose_next_customer returns *)
+  Lemma last_In {A} (l : list A) d : In (last l d) (d :: l).
+  Proof. revert d; induction l as [|a l IH]; intros d; [left; reflexivity|]. rewrite last_cons. right. apply IH. Qed.
+  Lemma choose_next_customer_spec nd s c s' : choose_next_customer cf nd s = Ok (Some c, s') -> In c (first_waiting (n_queues nd) (inds s)).
+  Proof.
+    unfold choose_next_customer. unfold bind at 1. cbn [gets].
+    destruct (first_waiting (n_queues nd) (inds s)) as [|w0 wr]; [intros H; inversion H|].
+    unfold bind at 1. destruct (ncfg_of cf (n_id nd) s) as [[nc s1]| |]; try discriminate.
+    destruct (nc_disc nc =? 0); [intros H; inversion H; left; reflexivity|].
+    destruct (nc_disc nc =? 1); [intros H; inversion H; apply last_In|].
+    unfold bind at 1. destruct (choice_uniform (w0 :: wr) s1) as [[x s2]| |] eqn:E; try discriminate.
+    intros H. inversion H. subst x. unfold choice_uniform, bind in E. destruct (draw_unif s1) as [[u s3]| |]; try discriminate.
+    destruct (nth_error (w0 :: wr) (rc_uniform (length (w0 :: wr)) u)) as [y|] eqn:En; [|discriminate]. cbn in E. inversion E. subst y.
+    eapply nth_error_In; eauto.
+  Qed.
+End Quiet.
+
+Section Who.
+  Variable cf : config.
+
+  Definition Q (fl ex : list Z) (s : sim) : Prop := WFx fl s /\ W cf ex s.
+
+  Ltac mstep H :=
+    match type of H with
+    | bind ?m ?f ?s = Ok _ =>
+      let a := fresh "a" in let s1 := fresh "s" in let E := fresh "E" in
+      unfold bind in H at 1; destruct (m s) as [[a s1]| |] eqn:E; [|discriminate H|discriminate H];
+      first [ (apply gets_spec in E as [-> ->])
+            | (let Hl := fresh "Hl" in apply lift_spec in E as [-> Hl])
+            | (apply is_inf_spec in E as [-> ->])
+            | (let Hn := fresh "Hn" in apply get_node_spec in E as [-> Hn])
+            | (let Hf := fresh "Hf" in apply get_ind_spec in E as [-> Hf])
+            | idtac ]
+    end.
+
+  Lemma nodeZ_eq s s' : nodes s' = nodes s -> forall j, nodeZ s' j = nodeZ s j.
+  Proof. intros H j. unfold nodeZ. rewrite H. reflexivity. Qed.
+
+  Lemma Q_same fl ex s s' : inds s' = inds s -> nodes s' = nodes s -> a_created (arr s') = a_created (arr s) ->
+    exit_ids s' = exit_ids s -> exit_n s' = exit_n s -> Q fl ex s -> Q fl ex s'.
+  Proof.
+    intros Ei En Ec Ee Ex [HW HWw]. split.
+    - eapply WFx_shape; [|exact HW]. unfold shp. rewrite En, Ec, Ee, Ex. reflexivity.
+    - apply (W_same cf s s'); [apply nodeZ_eq; exact En|lia|exact HWw|exact Ei].
+  Qed.
+  Lemma Q_quiet {A} (m : M A) fl ex s a s' : quiet m -> Q fl ex s -> m s = Ok (a, s') -> Q fl ex s'.
+  Proof. intros Hm HQ H. destruct (Hm _ _ _ H) as (A1 & A2 & A3 & A4 & A5). eapply Q_same; eauto. Qed.
+
+  Lemma put_facts nd' nd s s' j : Idx s -> nodeZ s j = Some nd -> put_node nd' s = Ok (tt, s') -> n_id nd' = n_id nd ->
+    (forall j', nodeZ s' j' = if j' =? j then Some nd' else nodeZ s j') /\ inds s' = inds s /\ arr s' = arr s.
+  Proof.
+    intros HI Hn H Hid. apply (nodeZ_put nd' s s' j H); [rewrite Hid; exact (Idx_get _ _ _ HI Hn)|eauto].
+  Qed.
+
+  Lemma NL_noserver ex s c x : W cf ex s -> find_ind c (inds s) = Some x -> i_server x = None -> NL s c.
+  Proof.
+    intros HWw Hx Hs j nd sv e Hn Hsv He Hc. destruct (w_live _ _ _ HWw j nd sv e c Hn Hsv He Hc) as (_ & x' & Hx' & _ & Hs'). congruence.
+  Qed.
+
+  (* a customer of a finite-server node that holds no server is not blocked *)
+  Lemma cand_unblocked fl ex s j nd c xc : Q fl ex s -> nodeZ s j = Some nd -> infb cf j = false -> In c (all_individuals nd) ->
+    find_ind c (inds s) = Some xc -> i_server xc = None -> ~ In c ex -> i_blocked xc = false.
+  Proof.
+    intros [HW HWw] Hn Hinf Hin Hx Hs Hex. destruct (i_blocked xc) eqn:Hb; [exfalso|reflexivity].
+    pose proof (find_ind_id _ _ _ Hx) as Hid.
+    destruct (w_blk _ _ _ HWw xc (find_In _ _ _ Hx) Hb) as [E1|(d & from & E1)]; [rewrite Hid in E1; exact (Hex E1)|].
+    rewrite Hid in E1. destruct (w_ent _ _ _ HWw d from c E1) as (x' & Hx' & _ & _ & (ndf & Hnf & Hinf') & Hsv).
+    rewrite Hx in Hx'. injection Hx' as <-. destruct Hsv as [Hsv|Hsv]; [|congruence].
+    assert (from = j) by (eapply WFx_place; eauto). congruence.
+  Qed.
+
+  (* ---------- start_service ---------- *)
+  Lemma start_service_W j c srv fl ex s s' : Q fl ex s ->
+    (match srv with None => True
+     | Some sv => exists xc, find_ind c (inds s) = Some xc /\ i_blocked xc = false /\ i_server xc = None /\ at_node s j c end) ->
+    start_service j c srv s = Ok (tt, s') -> Q fl ex s'.
+  Proof.
+    intros [HW HWw] Hsrv H. split; [eapply WFx_presI; [apply presI_start_service|exact HW|exact H]|].
+    unfold start_service in H.
+    mstep H. mstep H.
+    match goal with Hx : find_ind c (inds s) = Some ?xx |- _ => rename xx into x; rename Hx into Hf end.
+    pose proof (find_ind_id _ _ _ Hf) as Hidx.
+    mstep H.
+    match goal with E : draw_svc s = Ok (_, ?sa) |- _ => destruct (quiet_draw_svc _ _ _ E) as (Ei1 & En1 & Ec1 & _); rename sa into s1; clear E end.
+    assert (W1 : W cf ex s1) by (apply (W_same cf s s1); [apply nodeZ_eq; exact En1|lia|exact HWw|exact Ei1]).
+    assert (I1 : Idx s1) by (intros k n Hk; rewrite En1 in Hk; exact (WFx_Idx _ _ HW k n Hk)).
+    rewrite <- Ei1 in Hf.
+    mstep H.
+    match goal with E : put_ind ?x' s1 = Ok (?u, ?sa) |- _ =>
+      destruct u; destruct (put_ind_spec _ _ _ E) as (Ei2 & En2 & Ea2 & _); rename sa into s2; set (x1 := x') in *; clear E end.
+    assert (I2 : Idx s2) by (intros k n Hk; rewrite En2 in Hk; exact (I1 k n Hk)).
+    assert (W2 : W cf ex s2).
+    { apply (W_put_ind cf s1 s2 (nodeZ_eq _ _ En2) ltac:(rewrite Ea2; lia) ex ex c x x1 W1 Hf Hidx Ei2).
+      - destruct srv as [sv|]; [right|left; split; reflexivity].
+        destruct Hsrv as (xc & Hxc & Hb & Hs & _). rewrite <- Ei1, Hf in Hxc. injection Hxc as <-. eapply NL_noserver; eauto.
+      - destruct srv as [sv|]; [right|left; split; [|split]; reflexivity].
+        destruct Hsrv as (xc & Hxc & Hb & Hs & _). rewrite <- Ei1, Hf in Hxc. injection Hxc as <-. eapply N0_unblocked; eauto.
+      - auto.
+      - intros Hb. change (i_blocked x = true) in Hb. destruct (w_blk _ _ _ W1 x (find_In _ _ _ Hf) Hb) as [E1|E1]; rewrite Hidx in E1; auto. }
+    mstep H.
+    match goal with Hx : nthZ (nodes s2) (j - 1) = Some ?ndx |- _ => rename ndx into nd; rename Hx into Hn end.
+    destruct (put_facts _ nd s2 s' j I2 Hn H eq_refl) as (Hput & Ei3 & Ea3).
+    destruct srv as [sv|].
+    - destruct Hsrv as (xc & Hxc & Hb & Hs & (nd0 & Hn0 & Hin0)).
+      rewrite <- Ei1, Hf in Hxc. injection Hxc as <-.
+      assert (nd0 = nd) by (unfold nodeZ in Hn0; rewrite <- En1, <- En2 in Hn0; congruence). subst nd0.
+      eapply (W_node_sv cf s2 s' j nd _ Hn Hput Ei3 ltac:(rewrite Ea3; lia) ex); [reflexivity|reflexivity|reflexivity| |exact W2].
+      intros e c0 He Hc. cbn in Hc. injection Hc as <-. split; [exact Hin0|].
+      exists x1. rewrite Ei2. rewrite <- Hidx at 1. change (i_id x) with (i_id x1). rewrite find_put_same. split; [reflexivity|]. split; [exact Hb|reflexivity].
+    - eapply (W_node_q cf s2 s' j nd _ Hn Hput Ei3 ltac:(rewrite Ea3; lia) ex); [reflexivity|reflexivity| |exact W2]. intros y Hy. right. exact Hy.
+  Qed.
+
+  (* ---------- rewriting the record of a customer ---------- *)
+  (* fields W does not look at *)
+  Lemma put_ind_A fl ex s s' i x x' : Q fl ex s -> find_ind i (inds s) = Some x -> i_id x' = i ->
+    i_blocked x' = i_blocked x -> i_dest x' = i_dest x -> i_server x' = i_server x -> put_ind x' s = Ok (tt, s') ->
+    Q fl ex s' /\ nodes s' = nodes s /\ inds s' = put_ind_l x' (inds s).
+  Proof.
+    intros [HW HWw] Hf Hid Hb Hd Hs H. destruct (put_ind_spec _ _ _ H) as (Ei & En & Ea & Esh). split; [|auto]. split; [eapply WFx_shape; eauto|].
+    apply (W_put_ind cf s s' (nodeZ_eq _ _ En) ltac:(rewrite Ea; lia) ex ex i x x' HWw Hf Hid Ei); auto.
+    intros Hbx. rewrite Hb in Hbx. destruct (w_blk _ _ _ HWw x (find_In _ _ _ Hf) Hbx) as [E1|E1]; rewrite (find_ind_id _ _ _ Hf) in E1; auto.
+  Qed.
+  (* any field, for a customer who is in no blocked queue and nobody's live customer *)
+  Lemma put_ind_B fl ex ex' s s' i x x' : Q fl ex s -> find_ind i (inds s) = Some x -> i_id x' = i -> NL s i -> N0 s i ->
+    (forall y, In y ex -> y <> i -> In y ex') -> (i_blocked x' = true -> In i ex') -> put_ind x' s = Ok (tt, s') ->
+    Q fl ex' s' /\ nodes s' = nodes s /\ inds s' = put_ind_l x' (inds s).
+  Proof.
+    intros [HW HWw] Hf Hid HNL HN0 Hex Hb H. destruct (put_ind_spec _ _ _ H) as (Ei & En & Ea & Esh). split; [|auto]. split; [eapply WFx_shape; eauto|].
+    apply (W_put_ind cf s s' (nodeZ_eq _ _ En) ltac:(rewrite Ea; lia) ex ex' i x x' HWw Hf Hid Ei); auto.
+  Qed.
+
+  (* ---------- begin_service_if_possible ---------- *)
+  Lemma bsip_release_W j freed fl ex s s' : Q fl ex s -> (forall c, In c ex -> ~ at_node s j c) -> (freed <> None -> infb cf j = false) ->
+    begin_service_if_possible_release cf j freed s = Ok (tt, s') -> Q fl ex s'.
+  Proof.
+    intros HQ Hex Hinf H. unfold begin_service_if_possible_release in H.
+    destruct freed as [sid|]; [|apply ret_spec in H as [-> _]; exact HQ]. specialize (Hinf ltac:(discriminate)).
+    mstep H.
+    match goal with Hx : nthZ (nodes s) (j - 1) = Some ?ndx |- _ => rename ndx into nd; rename Hx into Hn end.
+    destruct (find_server sid (n_servers nd)) as [sv|]; [|apply ret_spec in H as [-> _]; exact HQ].
+    mstep H.
+    match goal with E : choose_next_customer cf nd s = Ok (?cand, ?sa) |- _ => rename E into Ech; rename sa into s1; destruct cand as [c|] end;
+      [|apply ret_spec in H as [-> _]; exact (Q_quiet _ _ _ _ _ _ (q_choose_next_customer cf nd) HQ Ech)].
+    pose proof (choose_next_customer_spec cf nd s c s1 Ech) as Hc. apply first_waiting_spec in Hc as (Hin & xc & Hxc & Hs).
+    destruct (q_choose_next_customer cf nd _ _ _ Ech) as (Ei & En & _).
+    eapply start_service_W; [exact (Q_quiet _ _ _ _ _ _ (q_choose_next_customer cf nd) HQ Ech)| |exact H].
+    exists xc. rewrite Ei. split; [exact Hxc|]. split; [|split; [exact Hs|exists nd; unfold nodeZ; rewrite En; auto]].
+    eapply cand_unblocked; eauto. intros Hc. apply (Hex c Hc). exists nd. auto.
+  Qed.
+
+  Lemma bsip_accept_W j i fl ex s s' : Q fl ex s -> (forall c, In c ex -> ~ at_node s j c) ->
+    begin_service_if_possible_accept cf j i s = Ok (tt, s') -> Q fl ex s'.
+  Proof.
+    intros HQ Hex H. unfold begin_service_if_possible_accept in H.
+    mstep H. mstep H.
+    match goal with Hx : find_ind i (inds s) = Some ?xx |- _ => rename xx into x; rename Hx into Hf end.
+    mstep H.
+    match goal with E : put_ind ?x' s = Ok (?u, ?sa) |- _ =>
+      destruct u; destruct (put_ind_A fl ex s sa i x x' HQ Hf (find_ind_id _ _ _ Hf) eq_refl eq_refl eq_refl E) as (HQ1 & En1 & Ei1); rename sa into s1; clear E end.
+    assert (Hex1 : forall c, In c ex -> ~ at_node s1 j c) by (intros c Hc (n & Hn' & Hin); apply (Hex c Hc); exists n; unfold nodeZ in *; rewrite <- En1; auto).
+    mstep H. mstep H.
+    match goal with Hx : nthZ (nodes s1) (j - 1) = Some ?ndx |- _ => rename ndx into nd; rename Hx into Hn end.
+    mstep H. revert H. match goal with E : _ s1 = Ok (?cand, ?sa) |- _ => rename E into Ech; rename sa into s2; rename cand into cnd; revert Ech end.
+    destruct (infb cf j) eqn:Einf; intros Ech H.
+    - apply ret_spec in Ech as [-> ->]. exact (start_service_W j i None fl ex _ s' HQ1 I H).
+    - destruct cnd as [c|]; [|apply ret_spec in H as [-> _]; exact (Q_quiet _ _ _ _ _ _ (q_choose_next_customer cf nd) HQ1 Ech)].
+      destruct (find_free_server (n_servers nd)) as [sv|]; [|apply ret_spec in H as [-> _]; exact (Q_quiet _ _ _ _ _ _ (q_choose_next_customer cf nd) HQ1 Ech)].
+      pose proof (choose_next_customer_spec cf nd s1 c s2 Ech) as Hc. apply first_waiting_spec in Hc as (Hin & xc & Hxc & Hs).
+      destruct (q_choose_next_customer cf nd _ _ _ Ech) as (Ei & En & _).
+      eapply start_service_W; [exact (Q_quiet _ _ _ _ _ _ (q_choose_next_customer cf nd) HQ1 Ech)| |exact H].
+      exists xc. rewrite Ei. split; [exact Hxc|]. split; [|split; [exact Hs|exists nd; unfold nodeZ; rewrite En; auto]].
+      eapply cand_unblocked; eauto. intros Hc. apply (Hex1 c Hc). exists nd. auto.
+  Qed.
+
+  (* ---------- accept, exit_accept: the customer in flight lands ---------- *)
+  Lemma In_concat_updZ_snoc (qs : list (list Z)) p q i y : nthZ qs p = Some q -> In y (concat qs) -> In y (concat (updZ qs p (q ++ [i]))).
+  Proof.
+    intros Hq Hy. destruct (nthZ_nat _ _ _ Hq) as (k & -> & Hk). rewrite updZ_nat.
+    eapply Permutation_in; [symmetry; apply (concat_upd_perm qs k q (q ++ [i]) i Hk); rewrite Permutation_app_comm; reflexivity|right; exact Hy].
+  Qed.
+
+  Lemma WFx_inflight_le i fl s : WFx (i :: fl) s -> i <= a_created (arr s).
+  Proof.
+    intros (_ & _ & H0 & HP). unfold shp in HP. cbn [sh_ids sh_created] in HP, H0.
+    assert (Hin : In i (zseq 1 (Z.to_nat (a_created (arr s))))) by (eapply Permutation_in; [exact HP|apply in_or_app; right; left; reflexivity]).
+    apply zseq_In in Hin. lia.
+  Qed.
+
+  (* a record for the customer in flight, whether or not the table has one already *)
+  Lemma put_ind_flight fl ex s s' x' : Q (i_id x' :: fl) ex s -> N0 s (i_id x') -> (forall y, In y ex -> y = i_id x') -> i_blocked x' = false ->
+    put_ind x' s = Ok (tt, s') -> Q (i_id x' :: fl) [] s' /\ nodes s' = nodes s.
+  Proof.
+    intros HQ HN0 Hex Hb H. destruct (find_ind (i_id x') (inds s)) as [x0|] eqn:Hx0.
+    - destruct (put_ind_B (i_id x' :: fl) ex [] s s' (i_id x') x0 x' HQ Hx0 eq_refl (NL_inflight _ _ _ _ _ (proj1 HQ) (proj2 HQ)) HN0
+                  ltac:(intros y Hy Hne; exfalso; exact (Hne (Hex y Hy))) ltac:(congruence) H) as (HQ1 & En1 & _). auto.
+    - destruct (put_ind_spec _ _ _ H) as (Ei & En & Ea & Esh). split; [|exact En]. split; [eapply WFx_shape; [exact Esh|exact (proj1 HQ)]|].
+      eapply W_ex_mono with (ex := []); [intros y []|].
+      assert (W0 : W cf [] s).
+      { destruct (proj2 HQ) as [A B C D E F G Hnf]. constructor; auto. intros y Hy Hby. destruct (E y Hy Hby) as [E1|E1]; [|auto].
+        exfalso. apply Hex in E1. exact (find_None _ _ Hx0 y Hy E1). }
+      apply (W_put_new cf s s' (nodeZ_eq _ _ En) ltac:(rewrite Ea; lia) [] x' W0 Hx0 Ei); [|exact Hb].
+      rewrite Ea. exact (WFx_inflight_le _ _ _ (proj1 HQ)).
+  Qed.
+
+  Lemma accept_W d x fl ex s s' : Q (i_id x :: fl) ex s -> N0 s (i_id x) ->
+    (forall y, In y ex -> y = i_id x) -> accept cf d x s = Ok (tt, s') -> Q fl [] s'.
+  Proof.
+    intros HQ HN0 Hex H. pose proof (accept_spec cf d x fl s s' (proj1 HQ) H) as HW'.
+    unfold accept in H.
+    mstep H.
+    match goal with Hx : nthZ (nodes s) (d - 1) = Some ?ndx |- _ => rename ndx into nd; rename Hx into Hn end.
+    mstep H.
+    match goal with E : put_ind ?x' s = Ok (?u, ?sa) |- _ =>
+      destruct u; destruct (put_ind_flight fl ex s sa x' HQ HN0 Hex eq_refl E) as (HQ1 & En1);
+      rename sa into s1; clear E end.
+    mstep H. mstep H.
+    match goal with Hx : match nthZ (n_queues nd) ?p with _ => _ end = Some ?qs |- _ =>
+      destruct (nthZ (n_queues nd) p) as [q|] eqn:Eq; [injection Hx as Hx|discriminate Hx]; rename Hx into Hqs end.
+    match goal with E : put_node ?nd' s1 = Ok (?u, ?sa) |- _ => destruct u; rename sa into s2; rename E into Eput end.
+    assert (Hn1 : nodeZ s1 d = Some nd) by (unfold nodeZ; rewrite En1; exact Hn).
+    pose proof (WFx_Idx _ _ (proj1 HQ1)) as I1.
+    destruct (put_facts _ nd s1 s2 d I1 Hn1 Eput eq_refl) as (Hput & Ei2 & Ea2).
+    assert (I2 : Idx s2) by (eapply Idx_put; [exact Eput|exact I1|cbn; rewrite (Idx_get _ _ _ I1 Hn1); eauto]).
+    assert (W2 : W cf [] s2).
+    { eapply (W_node_q cf s1 s2 d nd _ Hn1 Hput Ei2 ltac:(rewrite Ea2; lia) []); [reflexivity|reflexivity| |exact (proj2 HQ1)].
+      intros y Hy. right. unfold all_individuals in *. cbn. rewrite <- Hqs. eapply In_concat_updZ_snoc; eauto. }
+    assert (X2 : WFx fl s2).
+    { eapply WFx_shape; [|exact HW']. symmetry. exact (presI_bsip_accept cf d (i_id x) s2 tt s' I2 H). }
+    eapply bsip_accept_W; [split; [exact X2|exact W2]|intros c []|exact H].
+  Qed.
+
+  Lemma exit_accept_W x c fl ex s s' : Q (i_id x :: fl) ex s -> N0 s (i_id x) -> (forall y, In y ex -> y = i_id x) ->
+    exit_accept x c s = Ok (tt, s') -> Q fl [] s'.
+  Proof.
+    intros HQ HN0 Hex H. split; [exact (exit_accept_spec x c fl s s' (proj1 HQ) H)|].
+    unfold exit_accept, bind, del_ind, modify in H. injection H as <-.
+    set (s0 := s <| inds := del_ind_l (i_id x) (inds s) |>).
+    match goal with |- W cf [] ?sb => apply (W_same cf s0 sb); [intros; reflexivity|cbn; lia| |reflexivity] end.
+    apply (W_del_ind cf s s0 ltac:(intros; reflexivity) ltac:(cbn; lia) ex [] (i_id x) (proj2 HQ) eq_refl HN0 (NL_inflight _ _ _ _ _ (proj1 HQ) (proj2 HQ))).
+    intros y Hy Hne. exfalso. exact (Hne (Hex y Hy)).
+  Qed.
+
+  Lemma write_record_W j x fl ex s s' : Q fl ex s -> find_ind (i_id x) (inds s) = Some x -> write_individual_record cf j x s = Ok (tt, s') ->
+    Q fl ex s' /\ nodes s' = nodes s /\ inds s' = put_ind_l (x <| i_nrec := i_nrec x + 1 |>) (inds s).
+  Proof.
+    intros HQ Hf H. unfold write_individual_record in H. mstep H. mstep H.
+    match goal with E : log_rec _ s = Ok (_, ?sa) |- _ =>
+      destruct (quiet_log_rec _ _ _ _ E) as (Ei & En & _); pose proof (Q_quiet _ _ _ _ _ _ (quiet_log_rec _) HQ E) as HQ1; clear E end.
+    rewrite <- Ei in Hf.
+    match type of H with put_ind ?x' _ = _ => destruct (put_ind_A fl ex _ s' (i_id x) x x' HQ1 Hf eq_refl eq_refl eq_refl eq_refl H) as (HQ2 & En2 & Ei2) end.
+    split; [exact HQ2|]. split; congruence.
+  Qed.
+
+  Lemma N0_put s s' j nd nd' i : nodeZ s j = Some nd -> (forall j', nodeZ s' j' = if j' =? j then Some nd' else nodeZ s j') ->
+    n_bq nd' = n_bq nd -> N0 s i -> N0 s' i.
+  Proof.
+    intros Hn Hput Hb. apply N0_nodes. intros j'. rewrite Hput. destruct (Z.eqb_spec j' j) as [->|_]; [rewrite Hn; cbn; rewrite Hb|]; reflexivity.
+  Qed.
+
+  (* ---------- release and the cascade ---------- *)
+  Lemma release_W : forall f j i d s s', Q [] [i] s -> N0 s i -> NL s i -> release cf f j i d s = Ok (tt, s') -> Q [] [] s'.
+  Proof.
+    induction f as [|f IH]; intros j i d s s' HQ HN0 HNL H; [discriminate|].
+    cbn [release] in H.
+    mstep H. mstep H. mstep H. mstep H. mstep H.
+    match goal with Hx : find_ind i (inds s) = Some ?xx |- _ => rename xx into x; rename Hx into Hf end.
+    match goal with Hx : nthZ (nodes s) (j - 1) = Some ?ndx |- _ => rename ndx into nd; rename Hx into Hn end.
+    match goal with Hx : nthZ (n_queues nd) (i_pprio x) = Some ?qq |- _ => rename qq into q; rename Hx into Hq end.
+    match goal with Hx : remove_first i q = Some ?qq |- _ => rename qq into q'; rename Hx into Hq' end.
+    pose proof (WFx_Idx _ _ (proj1 HQ)) as I0.
+    (* the customer leaves its queue *)
+    mstep H.
+    match goal with E : put_node ?nd' s = Ok (?u, ?sa) |- _ => destruct u; rename sa into s0; rename E into Eput; set (nd1 := nd') in * end.
+    destruct (put_facts nd1 nd s s0 j I0 Hn Eput eq_refl) as (Hput & Ei0 & Ea0).
+    assert (Hperm : Permutation (i :: all_individuals nd1) (all_individuals nd)).
+    { destruct (nthZ_nat _ _ _ Hq) as (kp & Hkp & Hqk). unfold all_individuals, nd1. cbn. rewrite Hkp, updZ_nat.
+      eapply concat_upd_perm_rm; [exact Hqk|]. apply remove_first_perm. exact Hq'. }
+    assert (X0 : WFx [i] s0).
+    { destruct (nthZ_nat _ _ _ Hn) as (k & Hk & Hnk). pose proof (Idx_get _ _ _ I0 Hn) as Hid.
+      assert (Hsh := shp_put_node _ _ _ k nd Eput ltac:(cbn; lia) Hnk).
+      unfold WFx. rewrite Hsh. destruct HQ as [HW _]. unfold WFx, shp in HW.
+      eapply WFsh_rm; [exact HW|rewrite nth_error_map, Hnk; reflexivity|reflexivity|reflexivity|]. cbn. symmetry. exact Hperm. }
+    assert (W0 : W cf [i] s0).
+    { eapply (W_node_q cf s s0 j nd nd1 Hn Hput Ei0 ltac:(rewrite Ea0; lia) [i]); [reflexivity|reflexivity| |exact (proj2 HQ)].
+      intros y Hy. destruct (Z.eq_dec y i) as [->|Hne]; [left; auto|right].
+      apply (Permutation_in _ (Permutation_sym Hperm)) in Hy. destruct Hy as [Hy|Hy]; [congruence|exact Hy]. }
+    assert (N0a : N0 s0 i) by (eapply N0_put; [exact Hn|exact Hput|reflexivity|exact HN0]).
+    rewrite <- Ei0 in Hf. clear HQ HN0 HNL.
+    assert (HQ0 : Q [i] [i] s0) by (split; assumption). clear X0 W0.
+    (* its record *)
+    mstep H.
+    match goal with E : put_ind ?x' s0 = Ok (?u, ?sa) |- _ =>
+      destruct u; set (x1 := x') in *;
+      destruct (put_ind_B [i] [i] [i] s0 sa i x x1 HQ0 Hf (find_ind_id _ _ _ Hf) (NL_inflight _ _ _ _ _ (proj1 HQ0) (proj2 HQ0)) N0a
+                  ltac:(auto) ltac:(intros; left; reflexivity) E) as (HQ1 & En1 & Ei1); rename sa into s1; clear E end.
+    assert (N1a : N0 s1 i) by (eapply N0_nodes; [|exact N0a]; intros j'; rewrite (nodeZ_eq _ _ En1); reflexivity).
+    assert (Hid1 : i_id x1 = i) by exact (find_ind_id _ _ _ Hf).
+    assert (Hf1 : find_ind (i_id x1) (inds s1) = Some x1) by (rewrite Ei1; apply find_put_same).
+    mstep H.
+    match goal with E : write_individual_record cf j x1 s1 = Ok (?u, ?sa) |- _ =>
+      destruct u; destruct (write_record_W j x1 [i] [i] s1 sa HQ1 Hf1 E) as (HQ2 & En2 & Ei2); rename sa into s2; clear E end.
+    assert (N2a : N0 s2 i) by (eapply N0_nodes; [|exact N1a]; intros j'; rewrite (nodeZ_eq _ _ En2); reflexivity).
+    mstep H.
+    (* its server is freed *)
+    mstep H.
+    match goal with E : (if infb cf j then _ else _) s2 = Ok (?fr, ?sa) |- _ => rename fr into freed; rename sa into s3; rename E into Efree end.
+    assert (F3 : Q [i] [i] s3 /\ N0 s3 i /\ (freed <> None -> infb cf j = false) /\ inds s3 = inds s2).
+    { revert Efree. destruct (infb cf j) eqn:Einf; intros Efree.
+      - apply ret_spec in Efree as [-> ->]. split; [exact HQ2|]. split; [exact N2a|]. split; [intros Hx; exfalso; apply Hx; reflexivity|reflexivity].
+      - mstep Efree. mstep Efree. mstep Efree. mstep Efree. mstep Efree.
+        match goal with Hx : nthZ (nodes s2) (j - 1) = Some ?ndx |- _ => rename ndx into nd2; rename Hx into Hn2 end.
+        match goal with E : put_node ?nd' s2 = Ok (?u, ?sa) |- _ => destruct u; rename E into Eput2 end.
+        apply ret_spec in Efree as [-> ->].
+        pose proof (WFx_Idx _ _ (proj1 HQ2)) as I2.
+        destruct (put_facts _ nd2 s2 _ j I2 Hn2 Eput2 eq_refl) as (Hput2 & Ei3 & Ea3).
+        split; [split|split; [|split; [auto|exact Ei3]]].
+        + eapply WFx_shape; [|exact (proj1 HQ2)]. eapply put_node_shape; [exact Eput2|cbn; rewrite (Idx_get _ _ _ I2 Hn2); exact Hn2|reflexivity].
+        + eapply (W_node_sv cf s2 _ j nd2 _ Hn2 Hput2 Ei3 ltac:(rewrite Ea3; lia) [i]); [reflexivity|reflexivity|reflexivity| |exact (proj2 HQ2)].
+          intros e c He Hc. cbn in Hc. discriminate Hc.
+        + eapply N0_put; [exact Hn2|exact Hput2|reflexivity|exact N2a]. }
+    destruct F3 as (HQ3 & N3a & Hfinf & Ei3). clear Efree HQ2 N2a.
+    mstep H.
+    match goal with Hx : find_ind i (inds s3) = Some ?xx |- _ => rename xx into x2; rename Hx into Hf3 end.
+    mstep H.
+    match goal with E : put_ind ?x' s3 = Ok (?u, ?sa) |- _ =>
+      destruct u; set (x3 := x') in *;
+      destruct (put_ind_B [i] [i] [i] s3 sa i x2 x3 HQ3 Hf3 (find_ind_id _ _ _ Hf3) (NL_inflight _ _ _ _ _ (proj1 HQ3) (proj2 HQ3)) N3a
+                  ltac:(auto) ltac:(intros; left; reflexivity) E) as (HQ4 & En4 & Ei4); rename sa into s4; clear E end.
+    assert (N4a : N0 s4 i) by (eapply N0_nodes; [|exact N3a]; intros j'; rewrite (nodeZ_eq _ _ En4); reflexivity).
+    assert (Hid3 : i_id x3 = i) by exact (find_ind_id _ _ _ Hf3).
+    (* the freed server takes the next customer *)
+    mstep H.
+    match goal with E : begin_service_if_possible_release cf j freed s4 = Ok (?u, ?sa) |- _ => destruct u; rename sa into s5; rename E into Eb end.
+    assert (HQ5 : Q [i] [i] s5).
+    { eapply bsip_release_W; [exact HQ4| |exact Hfinf|exact Eb]. intros c [<-|[]] (n & Hnn & Hin). exact (WFx_inflight _ _ _ _ _ (proj1 HQ4) Hnn Hin). }
+    assert (N5a : N0 s5 i) by (eapply N0_BV; [|exact N4a]; exact (k_bsip_release cf j freed _ _ _ (WFx_Idx _ _ (proj1 HQ4)) Eb)).
+    (* the customer lands *)
+    mstep H.
+    match goal with E : (if d =? 0 then _ else _) s5 = Ok (?u, ?sa) |- _ => destruct u; rename sa into s6; rename E into EL end.
+    assert (HQ6 : Q [] [] s6).
+    { rewrite <- Hid3 in HQ5, N5a. destruct (d =? 0).
+      - eapply exit_accept_W; [exact HQ5|exact N5a| |exact EL]. intros y [<-|[]]. reflexivity.
+      - eapply accept_W; [exact HQ5|exact N5a| |exact EL]. intros y [<-|[]]. reflexivity. }
+    clear HQ5 N5a EL.
+    (* release_blocked_individual of node j *)
+    mstep H. mstep H.
+    match goal with Hx : nthZ (nodes s6) (j - 1) = Some ?ndx |- _ => rename ndx into nd3; rename Hx into Hn3 end.
+    match type of H with (if ?c then _ else _) _ = _ => destruct c end; [|apply ret_spec in H as [-> _]; exact HQ6].
+    destruct (n_bq nd3) as [|[from y] rest] eqn:Ebq; [discriminate|].
+    mstep H. mstep H.
+    match goal with E : (if ?b then ret tt else _) ?sa = Ok (_, ?sb) |- _ =>
+      assert (Hsb : sb = sa) by (destruct b; [inversion E; reflexivity|discriminate E]); rewrite Hsb in *; clear E Hsb end.
+    mstep H.
+    match goal with E : put_node ?nd' s6 = Ok (?u, ?sa) |- _ => destruct u; rename sa into sP; rename E into Eput7 end.
+    pose proof (WFx_Idx _ _ (proj1 HQ6)) as I6.
+    destruct (put_facts _ nd3 s6 sP j I6 Hn3 Eput7 eq_refl) as (Hput7 & Ei7 & Ea7).
+    assert (He : entry s6 j from y) by (exists nd3; rewrite Ebq; split; [exact Hn3|left; reflexivity]).
+    destruct (w_ent _ _ _ (proj2 HQ6) j from y He) as (xy & Hxy & Hby & Hdy & _ & _).
+    assert (W7 : W cf [y] sP).
+    { apply (W_node_pop cf s6 sP j nd3 _ Hn3 Hput7 Ei7 ltac:(rewrite Ea7; lia) [] (from, y) rest); [reflexivity|reflexivity|exact Ebq|reflexivity|exact (proj2 HQ6)]. }
+    assert (X7 : WFx [] sP).
+    { eapply WFx_shape; [|exact (proj1 HQ6)]. eapply put_node_shape; [exact Eput7|cbn; rewrite (Idx_get _ _ _ I6 Hn3); exact Hn3|reflexivity]. }
+    eapply IH; [split; [exact X7|exact W7]| | |exact H].
+    - intros d' fr (n & Hnn & Hin). rewrite Hput7 in Hnn. destruct (Z.eqb_spec d' j) as [->|Hne].
+      + injection Hnn as <-. cbn in Hin. pose proof (w_bqnd _ _ _ (proj2 HQ6) j nd3 Hn3) as Hnd. rewrite Ebq in Hnd. cbn in Hnd.
+        apply NoDup_cons_iff in Hnd as [Hnd _]. apply Hnd. apply in_map_iff. exists (fr, y). auto.
+      + destruct (w_ent _ _ _ (proj2 HQ6) d' fr y (ex_intro _ n (conj Hnn Hin))) as (xy' & Hxy' & _ & Hdy' & _). congruence.
+    - eapply NL_blocked; [exact W7|rewrite Ei7; exact Hxy|exact Hby].
+  Qed.
+End Who.
+
+(* the customers listed as "next to finish" are customers of the node that are not blocked (holds between events) *)
+Definition N1 (s : sim) : Prop :=
+  forall j nd i, nodeZ s j = Some nd -> In i (n_next_inds nd) ->
+    In i (all_individuals nd) /\ exists x, find_ind i (inds s) = Some x /\ i_blocked x = false.
+
+Section Who2.
+  Variable cf : config.
+
+  Ltac mstep H :=
+    match type of H with
+    | bind ?m ?f ?s = Ok _ =>
+      let a := fresh "a" in let s1 := fresh "s" in let E := fresh "E" in
+      unfold bind in H at 1; destruct (m s) as [[a s1]| |] eqn:E; [|discriminate H|discriminate H];
+      first [ (apply gets_spec in E as [-> ->])
+            | (let Hl := fresh "Hl" in apply lift_spec in E as [-> Hl])
+            | (apply is_inf_spec in E as [-> ->])
+            | (let Hn := fresh "Hn" in apply get_node_spec in E as [-> Hn])
+            | (let Hf := fresh "Hf" in apply get_ind_spec in E as [-> Hf])
+            | idtac ]
+    end.
+
+  Lemma pick_In (l : list Z) s i s' :
+    (match l with [] => fail E_NoInd | [a] => ret a | a :: b :: r => choice_uniform (a :: b :: r) end) s = Ok (i, s') -> In i l.
+  Proof.
+    destruct l as [|a [|b r]]; [discriminate|intros H; apply ret_spec in H as [_ ->]; left; reflexivity|].
+    intros H. unfold choice_uniform, bind in H. destruct (draw_unif s) as [[u s1]| |]; try discriminate.
+    destruct (nth_error (a :: b :: r) (rc_uniform (length (a :: b :: r)) u)) as [y|] eqn:En; [|discriminate]. cbn in H. inversion H. subst y.
+    eapply nth_error_In; eauto.
+  Qed.
+
+  (* ---------- finish_service ---------- *)
+  Lemma finish_service_W j s s' : Q cf [] [] s -> N1 s -> finish_service cf j s = Ok (tt, s') -> Q cf [] [] s'.
+  Proof.
+    intros HQ HN1 H. unfold finish_service in H.
+    mstep H.
+    match goal with Hx : nthZ (nodes s) (j - 1) = Some ?ndx |- _ => rename ndx into nd; rename Hx into Hn end.
+    mstep H.
+    match goal with E : _ s = Ok (?ii, ?sa) |- _ => rename ii into i; rename sa into sA; rename E into Epick end.
+    pose proof (pick_In _ _ _ _ Epick) as Hi.
+    destruct (HN1 j nd i Hn Hi) as (Hin & x0 & Hx0 & Hb0).
+    assert (QA : Q cf [] [] sA /\ inds sA = inds s /\ nodes sA = nodes s).
+    { match type of Epick with ?m s = _ => assert (Hq : quiet m) by (repeat first [apply q_choice_uniform | q_step]) end.
+      destruct (Hq _ _ _ Epick) as (A1 & A2 & _). split; [exact (Q_quiet cf _ _ _ _ _ _ Hq HQ Epick)|auto]. }
+    destruct QA as (HQA & EiA & EnA). clear Epick HQ.
+    mstep H.
+    match goal with Hx : find_ind i (inds sA) = Some ?xx |- _ => rename xx into x; rename Hx into Hf end.
+    assert (x = x0) by (rewrite EiA in Hf; congruence). subst x.
+    assert (AtA : at_node sA j i) by (exists nd; unfold nodeZ; rewrite EnA; auto).
+    clear Hx0 HN1 Hi Hn Hin EiA EnA.
+    mstep H.
+    (* change_customer_class *)
+    mstep H.
+    match goal with E : _ sA = Ok (?xx, ?sa) |- _ => rename xx into x1; rename sa into sB; rename E into Ecc end.
+    assert (CB : Q cf [] [] sB /\ inds sB = inds sA /\ nodes sB = nodes sA /\ i_id x1 = i /\ i_blocked x1 = false /\ i_server x1 = i_server x0).
+    { pose proof (find_ind_id _ _ _ Hf) as Hid0. revert Ecc.
+      match goal with |- match nc_ccm ?ncx with _ => _ end _ = _ -> _ => destruct (nc_ccm ncx) as [m|]; intros Ecc end.
+      - mstep Ecc. mstep Ecc.
+        match goal with E : choice_weighted _ _ sA = Ok (_, ?sa) |- _ =>
+          destruct (q_choice_weighted _ _ _ _ _ E) as (A1 & A2 & _); pose proof (Q_quiet cf _ _ _ _ _ _ (q_choice_weighted _ _) HQA E) as HQB end.
+        mstep Ecc. apply ret_spec in Ecc as [-> ->].
+        split; [exact HQB|]. split; [exact A1|]. split; [exact A2|]. split; [exact Hid0|]. split; [exact Hb0|reflexivity].
+      - apply ret_spec in Ecc as [-> ->].
+        split; [exact HQA|]. split; [reflexivity|]. split; [reflexivity|]. split; [exact Hid0|]. split; [exact Hb0|reflexivity]. }
+    destruct CB as (HQB & EiB & EnB & Hid1 & Hb1 & Hs1). clear Ecc HQA.
+    rewrite <- EiB in Hf. assert (AtB : at_node sB j i) by (destruct AtA as (n & A1 & A2); exists n; unfold nodeZ in *; rewrite EnB; auto). clear AtA EiB EnB.
+    mstep H. mstep H.
+    mstep H.
+    match goal with E : choice_weighted _ _ sB = Ok (?kk, ?sa) |- _ =>
+      destruct (q_choice_weighted _ _ _ _ _ E) as (EiC & EnC & _); pose proof (Q_quiet cf _ _ _ _ _ _ (q_choice_weighted _ _) HQB E) as HQC;
+      rename kk into k; rename sa into sC; clear E end.
+    rewrite <- EiC in Hf. assert (AtC : at_node sC j i) by (destruct AtB as (n & A1 & A2); exists n; unfold nodeZ in *; rewrite EnC; auto). clear AtB EiC EnC HQB.
+    match type of H with context [if Nat.ltb k (length ?row) then ?u else ?v] => set (D := if Nat.ltb k (length row) then u else v) in * end.
+    (* the destination is recorded *)
+    mstep H.
+    match goal with E : put_ind ?x' sC = Ok (?u, ?sa) |- _ => destruct u; set (x2 := x') in *; rename sa into sD; rename E into Eput end.
+    assert (N0C : N0 sC i) by (eapply N0_unblocked; [exact (proj2 HQC)|exact Hf|exact Hb0]).
+    assert (DD : Q cf [] [] sD /\ nodes sD = nodes sC /\ inds sD = put_ind_l x2 (inds sC)).
+    { destruct (put_ind_spec _ _ _ Eput) as (Ei & En & Ea & Esh). split; [|auto]. split; [eapply WFx_shape; [exact Esh|exact (proj1 HQC)]|].
+      apply (W_put_ind cf sC sD (nodeZ_eq _ _ En) ltac:(rewrite Ea; lia) [] [] i x0 x2 (proj2 HQC) Hf Hid1 Ei); auto.
+      - left. split; [change (i_blocked x1 = i_blocked x0); congruence|exact Hs1].
+      - intros Hb. change (i_blocked x1 = true) in Hb. congruence. }
+    destruct DD as (HQD & EnD & EiD). clear Eput.
+    assert (HfD : find_ind i (inds sD) = Some x2) by (rewrite EiD; rewrite <- Hid1 at 1; change (i_id x1) with (i_id x2); apply find_put_same).
+    assert (N0D : N0 sD i) by (eapply N0_nodes; [|exact N0C]; intros j'; rewrite (nodeZ_eq _ _ EnD); reflexivity).
+    assert (AtD : at_node sD j i) by (destruct AtC as (n & A1 & A2); exists n; unfold nodeZ in *; rewrite EnD; auto).
+    clear AtC N0C HQC Hf EnD EiD.
+    mstep H.
+    (* the server's end-of-service date is erased *)
+    mstep H.
+    match goal with E : (if infb cf j then _ else _) sD = Ok (?u, ?sa) |- _ => destruct u; rename sa into sE; rename E into Esv end.
+    assert (EE : Q cf [] [] sE /\ inds sE = inds sD /\ N0 sE i /\ at_node sE j i /\ NL sE i /\ (infb cf j = true \/ i_server x2 <> None)).
+    { destruct AtD as (ndD & HnD & HinD). revert Esv. destruct (infb cf j) eqn:Einf; intros Esv.
+      - apply ret_spec in Esv as [-> _]. split; [exact HQD|]. split; [reflexivity|]. split; [exact N0D|]. split; [exists ndD; auto|]. split; [|left; reflexivity].
+        intros j' n sv e Hn' Hsv He Hc. destruct (w_live _ _ _ (proj2 HQD) j' n sv e i Hn' Hsv He Hc) as (Hin' & _).
+        assert (j' = j) by (eapply WFx_place; [exact (proj1 HQD)|exact Hn'|exact HnD|exact Hin'|exact HinD]). subst j'.
+        rewrite HnD in Hn'. injection Hn' as <-. rewrite (w_inf _ _ _ (proj2 HQD) j ndD HnD Einf) in Hsv. destruct Hsv.
+      - mstep Esv. mstep Esv. mstep Esv.
+        match goal with Hx : i_server x2 = Some ?ss |- _ => rename ss into sid; rename Hx into Hsid end.
+        match goal with Hx : nthZ (nodes sD) (j - 1) = Some ?ndx |- _ => rename ndx into nd1; rename Hx into Hn1 end.
+        match goal with Hx : find_server sid (n_servers nd1) = Some ?ss |- _ => rename ss into svf; rename Hx into Hfs end.
+        assert (nd1 = ndD) by (unfold nodeZ in HnD; congruence). subst nd1.
+        pose proof (WFx_Idx _ _ (proj1 HQD)) as ID.
+        destruct (put_facts _ ndD sD sE j ID HnD Esv eq_refl) as (Hput & EiE & EaE).
+        assert (WE : W cf [] sE).
+        { eapply (W_node_sv cf sD sE j ndD _ HnD Hput EiE ltac:(rewrite EaE; lia) []); [reflexivity|reflexivity|reflexivity| |exact (proj2 HQD)].
+          intros e c He. cbn in He. discriminate He. }
+        assert (XE : WFx [] sE).
+        { eapply WFx_shape; [|exact (proj1 HQD)]. eapply put_node_shape; [exact Esv|cbn; rewrite (Idx_get _ _ _ ID Hn1); exact Hn1|reflexivity]. }
+        split; [split; assumption|]. split; [exact EiE|]. split; [eapply N0_put; [exact HnD|exact Hput|reflexivity|exact N0D]|].
+        split; [eexists; rewrite Hput, Z.eqb_refl; split; [reflexivity|exact HinD]|]. split; [|right; congruence].
+        intros j' n sv e Hn' Hsv He Hc. destruct (w_live _ _ _ WE j' n sv e i Hn' Hsv He Hc) as (Hin' & xi & Hxi & _ & Hsi).
+        rewrite EiE, HfD in Hxi. injection Hxi as <-.
+        assert (HnE : nodeZ sE j = Some (ndD <| n_servers := put_server_l (svf <| sv_next_end := None |>) (n_servers ndD) |>)) by (rewrite Hput, Z.eqb_refl; reflexivity).
+        assert (j' = j) by (eapply WFx_place; [exact XE|exact Hn'|exact HnE|exact Hin'|exact HinD]). subst j'.
+        rewrite HnE in Hn'. injection Hn' as <-. cbn in Hsv.
+        destruct (find_server_In _ _ _ Hfs) as (_ & Hsvid).
+        apply (In_put_server _ _ _ (w_svnd _ _ _ (proj2 HQD) j ndD HnD)) in Hsv as [->|[_ Hne]]; [cbn in He; discriminate He|].
+        cbn in Hne. congruence. }
+    destruct EE as (HQE & EiE & N0E & AtE & NLE & Hsrv). clear Esv HQD N0D AtD.
+    assert (HfE : find_ind i (inds sE) = Some x2) by (rewrite EiE; exact HfD). clear HfD EiE.
+    (* is there space at the destination? *)
+    mstep H.
+    match goal with E : (if D =? 0 then ret true else _) sE = Ok (?sp, ?sb) |- _ =>
+      assert (Hsp : sb = sE /\ (sp = false -> D <> 0));
+      [ revert E; destruct (Z.eqb_spec D 0) as [HD|HD]; intros E;
+        [ apply ret_spec in E as [-> ->]; split; [reflexivity|discriminate]
+        | mstep E; mstep E; apply ret_spec in E as [-> _]; split; [reflexivity|intros _; exact HD] ]
+      | destruct Hsp as [-> Hsp]; clear E ] end.
+    match type of H with (if ?sp then _ else _) _ = _ => destruct sp end.
+    - mstep H. eapply release_W; [split; [exact (proj1 HQE)|eapply W_ex_mono; [|exact (proj2 HQE)]; intros y []]|exact N0E|exact NLE|exact H].
+    - specialize (Hsp eq_refl). unfold block_individual in H.
+      mstep H.
+      match goal with Hx : find_ind i (inds sE) = Some ?xx |- _ =>
+        lazymatch xx with x2 => fail | _ => assert (Hxx : xx = x2) by congruence; rewrite Hxx in *; clear Hxx Hx end end.
+      mstep H.
+      match goal with E : put_ind ?x' sE = Ok (?u, ?sa) |- _ =>
+        destruct u; set (xb := x') in *;
+        destruct (put_ind_B cf [] [] [i] sE sa i x2 xb HQE HfE (find_ind_id _ _ _ HfE) NLE N0E ltac:(intros y []) ltac:(intros; left; reflexivity) E) as (HQF & EnF & EiF);
+        rename sa into sF; clear E end.
+      mstep H.
+      match goal with Hx : nthZ (nodes sF) (D - 1) = Some ?ndx |- _ => rename ndx into dn; rename Hx into HnF end.
+      pose proof (WFx_Idx _ _ (proj1 HQF)) as IF.
+      destruct (put_facts _ dn sF s' D IF HnF H eq_refl) as (Hput & EiG & EaG).
+      split.
+      + eapply WFx_shape; [|exact (proj1 HQF)]. eapply put_node_shape; [exact H|cbn; rewrite (Idx_get _ _ _ IF HnF); exact HnF|reflexivity].
+      + apply (W_node_push cf sF s' D dn _ HnF Hput EiG ltac:(rewrite EaG; lia) [i] [] j i xb); try reflexivity.
+        * rewrite EiF. rewrite <- (find_ind_id _ _ _ HfE) at 1. change (i_id x2) with (i_id xb). apply find_put_same.
+        * cbn. destruct (Z.eqb_spec D 0); [contradiction|reflexivity].
+        * destruct AtE as (n & A1 & A2). exists n. unfold nodeZ in *. rewrite EnF. auto.
+        * exact Hsrv.
+        * eapply N0_nodes; [|exact N0E]. intros j'. rewrite (nodeZ_eq _ _ EnF). reflexivity.
+        * intros y [<-|[]] Hne. contradiction.
+        * exact (proj2 HQF).
+  Qed.
+
+  (* ---------- arrivals ---------- *)
+  Lemma modify_spec (f : sim -> sim) s a s' : modify f s = Ok (a, s') -> s' = f s.
+  Proof. unfold modify. intros H. inversion H. reflexivity. Qed.
+  Lemma N0_same s s' i : nodes s' = nodes s -> N0 s i -> N0 s' i.
+  Proof. intros En. apply N0_nodes. intros j. rewrite (nodeZ_eq _ _ En). reflexivity. Qed.
+
+  Lemma release_individual_W j x s s' : Q cf [i_id x] [] s -> find_ind (i_id x) (inds s) = None -> i_blocked x = false ->
+    release_individual cf j x s = Ok (tt, s') -> Q cf [] [] s'.
+  Proof.
+    intros HQ Hnone Hb H. unfold release_individual in H.
+    assert (HN0 : N0 s (i_id x)).
+    { intros d from He. destruct (w_ent _ _ _ (proj2 HQ) d from _ He) as (xy & Hxy & _). congruence. }
+    mstep H. mstep H. mstep H.
+    mstep H.
+    match goal with E : put_ind x s = Ok (?u, ?sa) |- _ =>
+      destruct u; destruct (put_ind_flight cf [] [] s sa x HQ HN0 ltac:(intros y []) Hb E) as (HQ1 & En1); rename sa into s1; clear E end.
+    pose proof (N0_same _ _ _ En1 HN0) as N1a. clear HQ HN0 Hnone.
+    assert (Hrej : forall ty sa, Q cf [i_id x] [] sa -> N0 sa (i_id x) -> (write_br_record j x ty;;; exit_accept x false) sa = Ok (tt, s') -> Q cf [] [] s').
+    { intros ty sa HQa HNa Ha. mstep Ha.
+      match goal with E : write_br_record _ _ _ sa = Ok (_, ?sb) |- _ =>
+        destruct (q_write_br_record _ _ _ _ _ _ E) as (_ & En & _); pose proof (Q_quiet cf _ _ _ _ _ _ (q_write_br_record _ _ _) HQa E) as HQb end.
+      eapply (exit_accept_W cf x false [] []); [exact HQb|eapply N0_same; eauto|intros y []|exact Ha]. }
+    assert (Hacc : forall sa, Q cf [i_id x] [] sa -> N0 sa (i_id x) ->
+                     (modify (fun s => s <| arr := arr s <| a_accepted := a_accepted (arr s) + 1 |> |>);;; accept cf j x) sa = Ok (tt, s') -> Q cf [] [] s').
+    { intros sa HQa HNa Ha. mstep Ha.
+      match goal with E : modify _ sa = Ok (_, ?sb) |- _ => apply modify_spec in E; subst sb end.
+      match type of Ha with accept _ _ _ ?st = _ => eapply (accept_W cf j x [] [] st s'); [|eapply N0_same; [|exact HNa]; reflexivity|intros y []|exact Ha] end.
+      eapply Q_same; [| | | | |exact HQa]; reflexivity. }
+    match type of H with (if ?b then _ else _) _ = _ => destruct b end; [eapply Hrej; eauto|].
+    mstep H. mstep H.
+    match type of H with (match ?t with _ => _ end) _ = _ => destruct t as [tb|] end; [|eapply Hacc; eauto].
+    mstep H.
+    match goal with E : draw_unif s1 = Ok (_, ?sb) |- _ =>
+      destruct (quiet_draw_unif _ _ _ E) as (_ & En & _); pose proof (Q_quiet cf _ _ _ _ _ _ quiet_draw_unif HQ1 E) as HQ2;
+      pose proof (N0_same _ _ _ En N1a) as N2a end.
+    match type of H with (if ?b then _ else _) _ = _ => destruct b end; [eapply Hrej; eauto|eapply Hacc; eauto].
+  Qed.
+
+  Lemma find_none_of_le (l : list ind) c : (forall x, In x l -> i_id x <= c) -> find_ind (c + 1) l = None.
+  Proof. intros H. destruct (find_ind (c + 1) l) as [x|] eqn:E; [|reflexivity]. pose proof (H x (find_In _ _ _ E)). pose proof (find_ind_id _ _ _ E). lia. Qed.
+
+  Lemma batch_loop_W : forall n j c p s s', Q cf [] [] s -> batch_loop cf n j c p s = Ok (tt, s') -> Q cf [] [] s'.
+  Proof.
+    induction n as [|n IH]; intros j c p s s' HQ H; cbn [batch_loop] in H; [apply ret_spec in H as [-> _]; exact HQ|].
+    mstep H.
+    match goal with E : modify _ s = Ok (_, ?sa) |- _ => apply modify_spec in E; subst sa end.
+    mstep H. mstep H.
+    match goal with E : release_individual cf j ?xx ?sa = Ok (?u, ?sb) |- _ => destruct u; rename E into Er end.
+    eapply IH; [|exact H]. eapply release_individual_W; [| | |exact Er].
+    - split.
+      + destruct HQ as [HW _]. unfold WFx, shp in *. cbn. apply WFsh_spawn. exact HW.
+      + eapply (W_same cf s); [intros; reflexivity|cbn; lia|exact (proj2 HQ)|reflexivity].
+    - cbn. apply find_none_of_le. apply (w_le _ _ _ (proj2 HQ)).
+    - reflexivity.
+  Qed.
+
+  Lemma arrival_have_event_W s s' : Q cf [] [] s -> arrival_have_event cf s = Ok (tt, s') -> Q cf [] [] s'.
+  Proof.
+    intros HQ H. unfold arrival_have_event in H.
+    mstep H.
+    mstep H.
+    match goal with E : draw_batch s = Ok (_, ?sb) |- _ => pose proof (Q_quiet cf _ _ _ _ _ _ quiet_draw_batch HQ E) as HQ1; clear E HQ end.
+    mstep H.
+    match goal with E : (if ?b then _ else _) ?sa = Ok (_, ?sb) |- _ =>
+      assert (Hs : sb = sa) by (destruct b; [discriminate E|apply ret_spec in E as [-> _]; reflexivity]); rewrite Hs in *; clear E Hs end.
+    mstep H.
+    mstep H.
+    match goal with E : batch_loop _ _ _ _ _ _ = Ok (?u, ?sb) |- _ => destruct u; pose proof (batch_loop_W _ _ _ _ _ _ HQ1 E) as HQ2; clear E HQ1 end.
+    mstep H.
+    match goal with E : draw_arr _ = Ok (_, ?sb) |- _ => pose proof (Q_quiet cf _ _ _ _ _ _ quiet_draw_arr HQ2 E) as HQ3; clear E HQ2 end.
+    mstep H. mstep H. mstep H.
+    mstep H.
+    match goal with E : modify _ ?sa = Ok (_, ?sb) |- _ =>
+      assert (HQ4 : Q cf [] [] sb) by (apply modify_spec in E; rewrite E; eapply Q_same; [| | | | |exact HQ3]; reflexivity); clear E HQ3 end.
+    exact (Q_quiet cf _ _ _ _ _ _ (q_find_next_event_date) HQ4 H).
+  Qed.
+
+  (* ---------- update_next_event_date re-establishes N1, node by node ---------- *)
+  Definition N1j (s : sim) (j : Z) : Prop :=
+    forall nd i, nodeZ s j = Some nd -> In i (n_next_inds nd) -> In i (all_individuals nd) /\ exists x, find_ind i (inds s) = Some x /\ i_blocked x = false.
+
+  Lemma update_next_event_date_W j fl ex s s' : Q cf fl ex s -> update_next_event_date cf j s = Ok (tt, s') ->
+    Q cf fl ex s' /\ inds s' = inds s /\ N1j s' j /\ (forall j', j' <> j -> nodeZ s' j' = nodeZ s j').
+  Proof.
+    intros HQ H. unfold update_next_event_date in H.
+    mstep H.
+    match goal with Hx : nthZ (nodes s) (j - 1) = Some ?ndx |- _ => rename ndx into nd; rename Hx into Hn end.
+    mstep H. mstep H. mstep H.
+    match type of H with (let '(_, _) := ?pr in _) _ = _ => destruct pr as [dt l] eqn:Epr end.
+    pose proof (WFx_Idx _ _ (proj1 HQ)) as I0.
+    destruct (put_facts _ nd s s' j I0 Hn H eq_refl) as (Hput & Ei & Ea).
+    split; [split|split; [exact Ei|split]].
+    - eapply WFx_shape; [|exact (proj1 HQ)]. eapply put_node_shape; [exact H|cbn; rewrite (Idx_get _ _ _ I0 Hn); exact Hn|reflexivity].
+    - eapply (W_node_q cf s s' j nd _ Hn Hput Ei ltac:(rewrite Ea; lia) ex); [reflexivity|reflexivity| |exact (proj2 HQ)]. intros y Hy. right. exact Hy.
+    - intros n i Hn' Hi. rewrite Hput, Z.eqb_refl in Hn'. injection Hn' as <-. cbn in Hi. rewrite Ei.
+      change (In i (all_individuals nd) /\ exists x, find_ind i (inds s) = Some x /\ i_blocked x = false).
+      assert (Hl : l = snd (if infb cf j then scan_inds (now s) (all_individuals nd) (inds s) None [] else scan_servers (n_servers nd) None [])) by (rewrite Epr; reflexivity).
+      rewrite Hl in Hi. destruct (infb cf j).
+      + apply scan_inds_spec in Hi as [[]|Hi]. exact Hi.
+      + apply scan_servers_spec in Hi as [[]|(sv & e & Hsv & Hc & He)].
+        destruct (w_live _ _ _ (proj2 HQ) j nd sv e i Hn Hsv He Hc) as (Hin & x & Hx & Hb & _). eauto.
+    - intros j' Hne. rewrite Hput. destruct (Z.eqb_spec j' j); [contradiction|reflexivity].
+  Qed.
+
+  Lemma update_all_W : forall js fl ex s s', Q cf fl ex s -> update_all cf js s = Ok (tt, s') ->
+    Q cf fl ex s' /\ inds s' = inds s /\ (forall j, In j js -> N1j s' j) /\ (forall j, ~ In j js -> nodeZ s' j = nodeZ s j).
+  Proof.
+    induction js as [|j0 r IH]; intros fl ex s s' HQ H; cbn [update_all] in H.
+    - apply ret_spec in H as [-> _]. split; [exact HQ|]. split; [reflexivity|]. split; [intros j []|reflexivity].
+    - mstep H.
+      match goal with E : update_next_event_date cf j0 s = Ok (?u, ?sa) |- _ =>
+        destruct u; destruct (update_next_event_date_W j0 fl ex s sa HQ E) as (HQ1 & Ei1 & Hj0 & Hoth); clear E end.
+      destruct (IH _ _ _ _ HQ1 H) as (HQ2 & Ei2 & Hin & Hout).
+      split; [exact HQ2|]. split; [congruence|]. split.
+      + intros j [<-|Hj]; [|apply Hin; exact Hj].
+        destruct (in_dec Z.eq_dec j0 r) as [Hr|Hr]; [apply Hin; exact Hr|].
+        intros nd i Hn Hi. rewrite (Hout j0 Hr) in Hn. rewrite Ei2. apply (Hj0 nd i Hn Hi).
+      + intros j Hj. rewrite Hout by (intros Hr; apply Hj; right; exact Hr). apply Hoth. intros ->. apply Hj. left. reflexivity.
+  Qed.
+
+  (* ---------- one event ---------- *)
+  Definition Who (s : sim) : Prop := Q cf [] [] s /\ N1 s.
+
+  Lemma N1_same s s' : nodes s' = nodes s -> inds s' = inds s -> N1 s -> N1 s'.
+  Proof. intros En Ei H j nd i Hn Hi. rewrite (nodeZ_eq _ _ En) in Hn. rewrite Ei. apply (H j nd i Hn Hi). Qed.
+
+  Theorem event_step_who s s' : Who s -> event_step cf s = Ok (tt, s') -> Who s'.
+  Proof.
+    intros [HQ HN1] H. unfold event_step in H.
+    mstep H.
+    match goal with E : modify _ s = Ok (_, ?sa) |- _ => apply modify_spec in E; subst sa end.
+    match type of H with _ ?st = _ =>
+      assert (HQ0 : Q cf [] [] st) by (eapply Q_same; [| | | | |exact HQ]; reflexivity);
+      assert (HN0 : N1 st) by (eapply N1_same; [| |exact HN1]; reflexivity) end.
+    clear HQ HN1.
+    mstep H.
+    mstep H.
+    match goal with E : (if ?b then _ else _) _ = Ok (?u, ?sx) |- _ =>
+      destruct u; assert (HQ1 : Q cf [] [] sx) by (destruct b; [eapply arrival_have_event_W; eauto|eapply finish_service_W; eauto]);
+      rename sx into sB; clear E HQ0 HN0 end.
+    mstep H.
+    mstep H.
+    match goal with E : update_all cf _ sB = Ok (?u, ?sx) |- _ =>
+      destruct u; destruct (update_all_W _ _ _ _ _ HQ1 E) as (HQ2 & Ei2 & Hin & _);
+      pose proof (k_update_all cf _ _ _ _ (WFx_Idx _ _ (proj1 HQ1)) E) as EBV; rename sx into sC; clear E end.
+    assert (HN2 : N1 sC).
+    { intros j nd i Hn Hi. apply (Hin j); [|exact Hn|exact Hi].
+      pose proof (bvZ_BV sB sC j EBV) as Eb. unfold bvZ in Eb. fold (nodeZ sC j) in Eb. fold (nodeZ sB j) in Eb. rewrite Hn in Eb.
+      destruct (nodeZ sB j) as [nd0|] eqn:En0; [|discriminate Eb].
+      pose proof (Idx_get _ _ _ (WFx_Idx _ _ (proj1 HQ1)) En0) as Hid. rewrite <- Hid. apply in_map.
+      unfold nodeZ, nthZ in En0. destruct (j - 1 <? 0); [discriminate|]. eapply nth_error_In; eauto. }
+    destruct (q_find_next_active_node _ _ _ H) as (Ei3 & En3 & _).
+    split; [exact (Q_quiet cf _ _ _ _ _ _ q_find_next_active_node HQ2 H)|eapply N1_same; eauto].
+  Qed.
+
+  Theorem run_many_who : forall ds s s', Who s -> run_many cf s ds = Ok s' -> Who s'.
+  Proof.
+    induction ds as [|d r IH]; intros s s' HW H; cbn [run_many] in H; [inversion H; subst; exact HW|].
+    destruct (event_step cf (s <| dr := d |>)) as [[u s1]| |] eqn:E; try discriminate. destruct u.
+    eapply IH; [|exact H]. eapply event_step_who; [|exact E].
+    destruct HW as [HQ HN1]. split; [eapply Q_same; [| | | | |exact HQ]; reflexivity|eapply N1_same; [| |exact HN1]; reflexivity].
+  Qed.
+End Who2.
+
+(* ---------- (iii) in the words of the property ---------- *)
+Lemma NoDup_map_snd_inj {A} (l : list (A * Z)) a b y : NoDup (map snd l) -> In (a, y) l -> In (b, y) l -> a = b.
+Proof.
+  induction l as [|[c z] r IH]; cbn; intros Hnd Ha Hb; [destruct Ha|]. apply NoDup_cons_iff in Hnd as [Hn Hd].
+  destruct Ha as [Ha|Ha], Hb as [Hb|Hb].
+  - congruence.
+  - injection Ha as -> ->. exfalso. apply Hn. apply in_map_iff. exists (b, y). auto.
+  - injection Hb as -> ->. exfalso. apply Hn. apply in_map_iff. exists (a, y). auto.
+  - auto.
+Qed.
+
+Theorem who_means cf s : Who cf s ->
+  (* every entry (from, y) of the blocked queue of node k+1: y is a customer of node `from`, is flagged blocked and has
+     destination k+1 *)
+  (forall k nd from y, nth_error (nodes s) k = Some nd -> In (from, y) (n_bq nd) ->
+     exists x ndf, find_ind y (inds s) = Some x /\ i_blocked x = true /\ i_dest x = Some (Z.of_nat k + 1) /\
+                   1 <= from /\ nth_error (nodes s) (Z.to_nat (from - 1)) = Some ndf /\ In y (all_individuals ndf)) /\
+  (* conversely every customer flagged blocked is in a blocked queue ... *)
+  (forall x, In x (inds s) -> i_blocked x = true -> exists k nd from, nth_error (nodes s) k = Some nd /\ In (from, i_id x) (n_bq nd)) /\
+  (* ... in exactly one, once *)
+  (forall k nd, nth_error (nodes s) k = Some nd -> NoDup (map snd (n_bq nd))) /\
+  (forall k1 nd1 f1 k2 nd2 f2 y, nth_error (nodes s) k1 = Some nd1 -> In (f1, y) (n_bq nd1) ->
+                                  nth_error (nodes s) k2 = Some nd2 -> In (f2, y) (n_bq nd2) -> k1 = k2 /\ f1 = f2) /\
+  (* one record per customer *)
+  NoDup (map i_id (inds s)).
+Proof.
+  intros [[HW HWw] _].
+  assert (Hent : forall k nd from y, nth_error (nodes s) k = Some nd -> In (from, y) (n_bq nd) -> entry s (Z.of_nat k + 1) from y).
+  { intros k nd from y Hk Hin. exists nd. rewrite nodeZ_of_nat. auto. }
+  split; [|split; [|split; [|split]]].
+  - intros k nd from y Hk Hin. destruct (w_ent _ _ _ HWw _ _ _ (Hent k nd from y Hk Hin)) as (x & Hx & Hb & Hd & (ndf & Hnf & Hinf) & _).
+    exists x, ndf. split; [exact Hx|]. split; [exact Hb|]. split; [exact Hd|].
+    unfold nodeZ, nthZ in Hnf. destruct (from - 1 <? 0) eqn:E; [discriminate|]. apply Z.ltb_ge in E. split; [lia|]. auto.
+  - intros x Hx Hb. destruct (w_blk _ _ _ HWw x Hx Hb) as [[]|(d & from & nd & Hn & Hin)].
+    apply nodeZ_nat in Hn as (k & -> & Hk). eauto.
+  - intros k nd Hk. apply (w_bqnd _ _ _ HWw (Z.of_nat k + 1) nd). rewrite nodeZ_of_nat. exact Hk.
+  - intros k1 nd1 f1 k2 nd2 f2 y H1 I1 H2 I2.
+    destruct (w_ent _ _ _ HWw _ _ _ (Hent _ _ _ _ H1 I1)) as (x1 & Hx1 & _ & Hd1 & _).
+    destruct (w_ent _ _ _ HWw _ _ _ (Hent _ _ _ _ H2 I2)) as (x2 & Hx2 & _ & Hd2 & _).
+    assert (k1 = k2) by (rewrite Hx1 in Hx2; injection Hx2 as <-; rewrite Hd1 in Hd2; injection Hd2 as Hd2; lia). subst k2.
+    split; [reflexivity|]. rewrite H1 in H2. injection H2 as <-.
+    eapply NoDup_map_snd_inj; [|exact I1|exact I2]. apply (w_bqnd _ _ _ HWw (Z.of_nat k1 + 1) nd1). rewrite nodeZ_of_nat. exact H1.
+  - exact (w_nd _ _ _ HWw).
+Qed.
+
+(* ---------- an executable test of Who ---------- *)
+Fixpoint nodup_b (l : list Z) : bool := match l with [] => true | x :: r => negb (memZ x r) && nodup_b r end.
+Lemma nodup_b_sound l : nodup_b l = true -> NoDup l.
+Proof.
+  induction l as [|x r IH]; cbn; intros H; [constructor|]. apply andb_true_iff in H as [H1 H2]. constructor; [|auto].
+  rewrite <- memZ_In. apply negb_true_iff in H1. congruence.
+Qed.
+Definition is_some {A} (o : option A) : bool := match o with Some _ => true | None => false end.
+
+Definition ent_b (cf : config) (s : sim) (nd : node) (e : Z * Z) : bool :=
+  let '(from, y) := e in
+  match find_ind y (inds s) with
+  | Some x => i_blocked x && match i_dest x with Some d => d =? n_id nd | None => false end
+              && match nodeZ s from with Some ndf => memZ y (all_individuals ndf) | None => false end
+              && (infb cf from || is_some (i_server x))
+  | None => false
+  end.
+Definition live_b (s : sim) (nd : node) (sv : server) : bool :=
+  match sv_next_end sv, sv_cust sv with
+  | Some _, Some c => memZ c (all_individuals nd)
+                      && match find_ind c (inds s) with
+                         | Some x => negb (i_blocked x) && match i_server x with Some sid => sid =? sv_id sv | None => false end
+                         | None => false
+                         end
+  | _, _ => true
+  end.
+Definition next_b (s : sim) (nd : node) (i : Z) : bool :=
+  memZ i (all_individuals nd) && match find_ind i (inds s) with Some x => negb (i_blocked x) | None => false end.
+
+Definition who_b (cf : config) (s : sim) : bool :=
+  wfx_b s
+  && nodup_b (map i_id (inds s))
+  && forallb (fun x => i_id x <=? a_created (arr s)) (inds s)
+  && forallb (fun nd => nodup_b (map snd (n_bq nd))) (nodes s)
+  && forallb (fun nd => forallb (ent_b cf s nd) (n_bq nd)) (nodes s)
+  && forallb (fun x => negb (i_blocked x) || existsb (fun nd => memZ (i_id x) (map snd (n_bq nd))) (nodes s)) (inds s)
+  && forallb (fun nd => nodup_b (map sv_id (n_servers nd))) (nodes s)
+  && forallb (fun nd => forallb (live_b s nd) (n_servers nd)) (nodes s)
+  && forallb (fun nd => negb (infb cf (n_id nd)) || match n_servers nd with [] => true | _ => false end) (nodes s)
+  && forallb (fun nd => forallb (next_b s nd) (n_next_inds nd)) (nodes s).
+
+Lemma nodeZ_In s j nd : nodeZ s j = Some nd -> In nd (nodes s).
+Proof. intros H. apply nodeZ_nat in H as (k & _ & Hk). eapply nth_error_In; eauto. Qed.
+
+Theorem who_b_sound cf s : who_b cf s = true -> Who cf s.
+Proof.
+  unfold who_b. intros H.
+  repeat match type of H with (_ && _) = true => let H2 := fresh "B" in apply andb_true_iff in H as [H H2] end.
+  pose proof (wfx_b_sound s H) as HW. pose proof (WFx_Idx _ _ HW) as HI.
+  rewrite forallb_forall in B, B0, B1, B2, B3, B4, B5, B6.
+  split; [split; [exact HW|constructor]|].
+  - apply nodup_b_sound. exact B7.
+  - intros x Hx. apply Z.leb_le. apply (B6 x Hx).
+  - intros j nd Hn. apply nodup_b_sound. apply (B5 nd (nodeZ_In _ _ _ Hn)).
+  - intros d from y (nd & Hn & Hin). pose proof (B4 nd (nodeZ_In _ _ _ Hn)) as E. rewrite forallb_forall in E. specialize (E _ Hin).
+    unfold ent_b in E. destruct (find_ind y (inds s)) as [x|]; [|discriminate]. exists x.
+    apply andb_true_iff in E as [E E4]. apply andb_true_iff in E as [E E3]. apply andb_true_iff in E as [E1 E2].
+    split; [reflexivity|]. split; [exact E1|]. split.
+    + destruct (i_dest x) as [d0|]; [|discriminate]. apply Z.eqb_eq in E2. rewrite E2. f_equal. exact (Idx_get _ _ _ HI Hn).
+    + split.
+      * destruct (nodeZ s from) as [ndf|] eqn:Ef; [|discriminate]. exists ndf. split; [exact Ef|apply memZ_In; exact E3].
+      * apply orb_true_iff in E4 as [E4|E4]; [left; exact E4|right]. destruct (i_server x); [discriminate|discriminate E4].
+  - intros x Hx Hb. right. specialize (B3 x Hx). rewrite Hb in B3. cbn in B3. apply existsb_exists in B3 as (nd & Hnd & Hm).
+    apply memZ_In in Hm. apply in_map_iff in Hm as ([from y] & Ey & Hin). cbn in Ey. subst y.
+    apply In_nth_error in Hnd as (k & Hk). exists (Z.of_nat k + 1), from, nd. rewrite nodeZ_of_nat. auto.
+  - intros j nd Hn. apply nodup_b_sound. apply (B2 nd (nodeZ_In _ _ _ Hn)).
+  - intros j nd sv e c Hn Hsv He Hc. pose proof (B1 nd (nodeZ_In _ _ _ Hn)) as E. rewrite forallb_forall in E. specialize (E _ Hsv).
+    unfold live_b in E. rewrite He, Hc in E. apply andb_true_iff in E as [E1 E2]. split; [apply memZ_In; exact E1|].
+    destruct (find_ind c (inds s)) as [x|]; [|discriminate]. exists x. apply andb_true_iff in E2 as [E2 E3].
+    split; [reflexivity|]. split; [apply negb_true_iff; exact E2|]. destruct (i_server x) as [sid|]; [|discriminate]. apply Z.eqb_eq in E3. congruence.
+  - intros j nd Hn Hinf. pose proof (B0 nd (nodeZ_In _ _ _ Hn)) as E. rewrite (Idx_get _ _ _ HI Hn), Hinf in E. cbn in E.
+    destruct (n_servers nd); [reflexivity|discriminate].
+  - intros j nd i Hn Hi. pose proof (B nd (nodeZ_In _ _ _ Hn)) as E. rewrite forallb_forall in E. specialize (E _ Hi).
+    unfold next_b in E. apply andb_true_iff in E as [E1 E2]. split; [apply memZ_In; exact E1|].
+    destruct (find_ind i (inds s)) as [x|]; [|discriminate]. exists x. split; [reflexivity|apply negb_true_iff; exact E2].
+Qed.
+
+
+(* L [cfg; state] -> A 1 when the snapshot satisfies Who *)
+Definition run_whob (inp : sx) : sx :=
+  match inp with
+  | L [c; s] =>
+    match dec_cfg c, dec_sim s (L [L []; L []; L []; L []]) with
+    | Some cf, Some st => A (if who_b cf st then 1 else 0)
+    | _, _ => A (-1)
+    end
+  | _ => A (-1)
+  end.
+
+(* ---------- everything together: any number of events ---------- *)
+Theorem engine_blocking cf : forall ds s s', Blk cf s -> Who cf s -> run_many cf s ds = Ok s' ->
+  Blk cf s' /\ Who cf s' /\ fifo s s'.
+Proof.
+  intros ds s s' HB HW H. split; [exact (run_many_blk cf ds s s' HB H)|]. split; [exact (run_many_who cf ds s s' HW H)|exact (run_many_fifo cf ds s s' HB H)].
+Qed.
+
 (* ---------- non-vacuity: a concrete two-node tandem, node 2 with room for one customer ---------- *)
 Definition ex_cf : config :=
   mkCfg 1 [mkNcfg (Some 1) None None 0; mkNcfg (Some 1) (Some 1) None 0] [0] 1 None [[[0; 8]; [0; 0]]] [[None; None]].
@@ -771,21 +2186,27 @@ Definition ex_s0 : sim :=
   mkSim 3 1 (mkArr 2 2 [[Some 4]; [None]] 1 0 (Some 4)) [ex_n1; ex_n2] [] 0 0 [ex_i1; ex_i2] (mkDraws [] [] [] []) [].
 Definition ex_d : draws := mkDraws [5] [1] [4; 2; 7] [4503599627370496; 0; 0].
 
-Example ex_hyps : blk_b ex_cf ex_s0 = true /\ wfx_b ex_s0 = true /\ cap_b ex_cf ex_s0 = true.
+Example ex_hyps : blk_b ex_cf ex_s0 = true /\ who_b ex_cf ex_s0 = true /\ cap_b ex_cf ex_s0 = true.
 Proof. vm_compute. auto. Qed.
 Example ex_Blk : Blk ex_cf ex_s0.
 Proof. apply blk_b_sound. vm_compute. reflexivity. Qed.
-(* event 1: node 2 is full, customer 1 joins its blocked queue and stays at node 1 *)
+Example ex_Who : Who ex_cf ex_s0.
+Proof. apply who_b_sound. vm_compute. reflexivity. Qed.
+(* event 1: node 2 is full, customer 1 joins its blocked queue and stays at node 1, flagged blocked *)
 Example ex_blocked : exists s1, run_many ex_cf ex_s0 [ex_d] = Ok s1 /\
-  map n_bq (nodes s1) = [[]; [(1, 1)]] /\ map all_individuals (nodes s1) = [[1]; [2]] /\ blk_b ex_cf s1 = true.
-Proof. eexists. split; [vm_compute; reflexivity|]. vm_compute. auto. Qed.
+  map n_bq (nodes s1) = [[]; [(1, 1)]] /\ map all_individuals (nodes s1) = [[1]; [2]] /\
+  map (fun x => (i_id x, i_blocked x, i_dest x)) (inds s1) = [(1, true, Some 2); (2, false, None)] /\
+  blk_b ex_cf s1 = true /\ who_b ex_cf s1 = true.
+Proof. eexists. split; [vm_compute; reflexivity|]. vm_compute. auto 6. Qed.
 (* events 2 and 3: customer 3 arrives at node 1; customer 2 leaves node 2 and, in the same event, customer 1 takes the place *)
 Example ex_unblocked : exists s3, run_many ex_cf ex_s0 [ex_d; ex_d; ex_d] = Ok s3 /\
-  map n_bq (nodes s3) = [[]; []] /\ map all_individuals (nodes s3) = [[3]; [1]] /\ exit_ids s3 = [2] /\ blk_b ex_cf s3 = true.
-Proof. eexists. split; [vm_compute; reflexivity|]. vm_compute. auto. Qed.
-(* the intermediate state, with a customer in a blocked queue, satisfies the invariant by the theorem (not by computation) *)
-Example ex_Blk_run : forall s1, run_many ex_cf ex_s0 [ex_d] = Ok s1 -> Blk ex_cf s1.
-Proof. intros s1 H. exact (run_many_blk ex_cf _ _ _ ex_Blk H). Qed.
+  map n_bq (nodes s3) = [[]; []] /\ map all_individuals (nodes s3) = [[3]; [1]] /\ exit_ids s3 = [2] /\
+  map (fun x => (i_id x, i_blocked x)) (inds s3) = [(1, false); (3, false)] /\
+  blk_b ex_cf s3 = true /\ who_b ex_cf s3 = true.
+Proof. eexists. split; [vm_compute; reflexivity|]. vm_compute. auto 7. Qed.
+(* the intermediate state, with a customer in a blocked queue, satisfies the invariants by the theorem (not by computation) *)
+Example ex_run : forall s1, run_many ex_cf ex_s0 [ex_d] = Ok s1 -> Blk ex_cf s1 /\ Who ex_cf s1 /\ fifo ex_s0 s1.
+Proof. intros s1 H. exact (engine_blocking ex_cf _ _ _ ex_Blk ex_Who H). Qed.
 
 Print Assumptions event_step_blk.
 Print Assumptions event_step_fifo.
@@ -795,5 +2216,11 @@ Print Assumptions run_many_fifo.
 Print Assumptions blk_means.
 Print Assumptions blk_full.
 Print Assumptions blk_b_sound.
+Print Assumptions event_step_who.
+Print Assumptions run_many_who.
+Print Assumptions who_means.
+Print Assumptions who_b_sound.
+Print Assumptions engine_blocking.
 Print Assumptions ex_blocked.
 Print Assumptions ex_unblocked.
+Print Assumptions ex_run.
